@@ -55,11 +55,77 @@ def AnalogPayload_Header_setUnit (m : Bytes) (this_ : Nat) (a_newUnit : Nat) : O
   let m ← wr m (this_ + 3) 1 t1
   pure m
 
+/-- `ASAM::CMP::Payload::getLength` (line 71) -/
+def Payload_getLength (pd_ pdsize_ : Nat) (this_ : Nat) : Option Nat := do
+  pure pdsize_
+
+/-- `ASAM::CMP::AnalogPayload::getHeader` (line 159) -/
+def AnalogPayload_getHeader_v (pd_ pdsize_ : Nat) (this_ : Nat) : Option Nat := do
+  pure pd_
+
+/-- `ASAM::CMP::AnalogPayload::getSamplesCount` (line 136) -/
+def AnalogPayload_getSamplesCount (m : Bytes) (pd_ pdsize_ : Nat) (this_ : Nat) : Option Nat := do
+  let t1 ← Payload_getLength pd_ pdsize_ this_
+  let v_samplesSize := (usub 64 t1 16)
+  let t2 ← AnalogPayload_getHeader_v pd_ pdsize_ this_
+  let t3 ← AnalogPayload_Header_getSampleDt m t2
+  let t6 ← (if (t3 == 0) then (do let t4 ← udiv 64 v_samplesSize 2; pure t4) else (do let t5 ← udiv 64 v_samplesSize 4; pure t5))
+  pure t6
+
+/-- `ASAM::CMP::AnalogPayload::getData` (line 142) -/
+def AnalogPayload_getData (m : Bytes) (pd_ pdsize_ : Nat) (this_ : Nat) : Option Nat := do
+  let t1 ← AnalogPayload_getSamplesCount m pd_ pdsize_ this_
+  pure (if (t1 != 0) then (pd_ + 16) else 0)
+
+/-- `ASAM::CMP::AnalogPayload::getFlags` (line 76) -/
+def AnalogPayload_getFlags (m : Bytes) (pd_ pdsize_ : Nat) (this_ : Nat) : Option Nat := do
+  let t1 ← AnalogPayload_getHeader_v pd_ pdsize_ this_
+  let t2 ← AnalogPayload_Header_getFlags m t1
+  pure t2
+
+/-- `ASAM::CMP::AnalogPayload::getHeader` (line 164) -/
+def AnalogPayload_getHeader_v2 (pd_ pdsize_ : Nat) (this_ : Nat) : Option Nat := do
+  pure pd_
+
+/-- `ASAM::CMP::AnalogPayload::getSampleDt` (line 86) -/
+def AnalogPayload_getSampleDt (m : Bytes) (pd_ pdsize_ : Nat) (this_ : Nat) : Option Nat := do
+  let t1 ← AnalogPayload_getHeader_v pd_ pdsize_ this_
+  let t2 ← AnalogPayload_Header_getSampleDt m t1
+  pure t2
+
+/-- `ASAM::CMP::AnalogPayload::getUnit` (line 96) -/
+def AnalogPayload_getUnit (m : Bytes) (pd_ pdsize_ : Nat) (this_ : Nat) : Option Nat := do
+  let t1 ← AnalogPayload_getHeader_v pd_ pdsize_ this_
+  let t2 ← AnalogPayload_Header_getUnit m t1
+  pure t2
+
 /-- `ASAM::CMP::AnalogPayload::isValidPayload` (line 152) -/
 def AnalogPayload_isValidPayload (m : Bytes) (a_data : Nat) (a_size : Nat) : Option Bool := do
   let v_header := a_data
   let t4 ← (if (decide (a_size ≥ 16)) then (do let t1 ← AnalogPayload_Header_getSampleDt m v_header; let t3 ← (if (t1 == 0) then pure true else (do let t2 ← AnalogPayload_Header_getSampleDt m v_header; pure (t2 == 256))); pure t3) else pure false)
   pure t4
+
+/-- `ASAM::CMP::AnalogPayload::setFlags` (line 81) -/
+def AnalogPayload_setFlags (m : Bytes) (pd_ pdsize_ : Nat) (this_ : Nat) (a_flags : Nat) : Option Bytes := do
+  let t1 ← AnalogPayload_getHeader_v2 pd_ pdsize_ this_
+  let m ← AnalogPayload_Header_setFlags m t1 a_flags
+  pure m
+
+/-- `ASAM::CMP::AnalogPayload::setSampleDt` (line 91) -/
+def AnalogPayload_setSampleDt (m : Bytes) (pd_ pdsize_ : Nat) (this_ : Nat) (a_sampleDt : Nat) : Option Bytes := do
+  let t1 ← AnalogPayload_getHeader_v2 pd_ pdsize_ this_
+  let m ← AnalogPayload_Header_setSampleDt m t1 a_sampleDt
+  pure m
+
+/-- `ASAM::CMP::AnalogPayload::setUnit` (line 101) -/
+def AnalogPayload_setUnit (m : Bytes) (pd_ pdsize_ : Nat) (this_ : Nat) (a_unit : Nat) : Option Bytes := do
+  let t1 ← AnalogPayload_getHeader_v2 pd_ pdsize_ this_
+  let m ← AnalogPayload_Header_setUnit m t1 a_unit
+  pure m
+
+/-- `ASAM::CMP::CanPayloadBase::getHeader` (line 275) -/
+def CanPayloadBase_getHeader_v (pd_ pdsize_ : Nat) (this_ : Nat) : Option Nat := do
+  pure pd_
 
 /-- `ASAM::CMP::swapEndian` (line 40) -/
 def swapEndian_u32 (a_value : Nat) : Option Nat := do
@@ -69,17 +135,173 @@ def swapEndian_u32 (a_value : Nat) : Option Nat := do
   let t4 ← ushl 32 (a_value &&& 255) 24
   pure (((t1 ||| t2) ||| t3) ||| t4)
 
+/-- `ASAM::CMP::CanPayloadBase::Header::getCrcSbc` (line 90) -/
+def CanPayloadBase_Header_getCrcSbc (m : Bytes) (this_ : Nat) : Option Nat := do
+  let t1 ← rd m (this_ + 8) 4
+  let t2 ← swapEndian_u32 (t1 &&& 4294909696)
+  pure t2
+
+/-- `ASAM::CMP::CanFdPayload::getCrc` (line 26) -/
+def CanFdPayload_getCrc (m : Bytes) (pd_ pdsize_ : Nat) (this_ : Nat) : Option Nat := do
+  let t1 ← CanPayloadBase_getHeader_v pd_ pdsize_ this_
+  let t2 ← CanPayloadBase_Header_getCrcSbc m t1
+  pure t2
+
+/-- `ASAM::CMP::CanPayloadBase::Header::getRtrRrs` (line 49) -/
+def CanPayloadBase_Header_getRtrRrs (m : Bytes) (this_ : Nat) : Option Bool := do
+  let t1 ← rd m (this_ + 4) 4
+  pure ((t1 &&& 64) != 0)
+
+/-- `ASAM::CMP::CanFdPayload::getRrs` (line 16) -/
+def CanFdPayload_getRrs (m : Bytes) (pd_ pdsize_ : Nat) (this_ : Nat) : Option Bool := do
+  let t1 ← CanPayloadBase_getHeader_v pd_ pdsize_ this_
+  let t2 ← CanPayloadBase_Header_getRtrRrs m t1
+  pure t2
+
+/-- `ASAM::CMP::CanPayloadBase::Header::getSbc` (line 101) -/
+def CanPayloadBase_Header_getSbc (m : Bytes) (this_ : Nat) : Option Nat := do
+  let t1 ← rd m (this_ + 8) 4
+  let t2 ← swapEndian_u32 (t1 &&& 57344)
+  let t3 ← ushr 32 t2 21
+  pure (t3 % 256)
+
+/-- `ASAM::CMP::CanFdPayload::getSbc` (line 36) -/
+def CanFdPayload_getSbc (m : Bytes) (pd_ pdsize_ : Nat) (this_ : Nat) : Option Nat := do
+  let t1 ← CanPayloadBase_getHeader_v pd_ pdsize_ this_
+  let t2 ← CanPayloadBase_Header_getSbc m t1
+  pure t2
+
+/-- `ASAM::CMP::CanPayloadBase::Header::getSbcParity` (line 112) -/
+def CanPayloadBase_Header_getSbcParity (m : Bytes) (this_ : Nat) : Option Bool := do
+  let t1 ← rd m (this_ + 8) 4
+  pure ((t1 &&& 1) != 0)
+
+/-- `ASAM::CMP::CanFdPayload::getSbcParity` (line 46) -/
+def CanFdPayload_getSbcParity (m : Bytes) (pd_ pdsize_ : Nat) (this_ : Nat) : Option Bool := do
+  let t1 ← CanPayloadBase_getHeader_v pd_ pdsize_ this_
+  let t2 ← CanPayloadBase_Header_getSbcParity m t1
+  pure t2
+
+/-- `ASAM::CMP::CanPayloadBase::Header::getSbcSupport` (line 122) -/
+def CanPayloadBase_Header_getSbcSupport (m : Bytes) (this_ : Nat) : Option Bool := do
+  let t1 ← rd m (this_ + 8) 4
+  pure ((t1 &&& 64) != 0)
+
+/-- `ASAM::CMP::CanFdPayload::getSbcSupport` (line 56) -/
+def CanFdPayload_getSbcSupport (m : Bytes) (pd_ pdsize_ : Nat) (this_ : Nat) : Option Bool := do
+  let t1 ← CanPayloadBase_getHeader_v pd_ pdsize_ this_
+  let t2 ← CanPayloadBase_Header_getSbcSupport m t1
+  pure t2
+
+/-- `ASAM::CMP::CanPayloadBase::getHeader` (line 280) -/
+def CanPayloadBase_getHeader_v2 (pd_ pdsize_ : Nat) (this_ : Nat) : Option Nat := do
+  pure pd_
+
+/-- `ASAM::CMP::CanPayloadBase::Header::setCrcSbc` (line 95) -/
+def CanPayloadBase_Header_setCrcSbc (m : Bytes) (this_ : Nat) (a_newCrcSbc : Nat) : Option Bytes := do
+  let t1 ← rd m (this_ + 8) 4
+  let m ← wr m (this_ + 8) 4 (t1 &&& (bnot 32 4294909696))
+  let t2 ← swapEndian_u32 a_newCrcSbc
+  let t3 ← rd m (this_ + 8) 4
+  let m ← wr m (this_ + 8) 4 (t3 ||| t2)
+  pure m
+
+/-- `ASAM::CMP::CanFdPayload::setCrc` (line 31) -/
+def CanFdPayload_setCrc (m : Bytes) (pd_ pdsize_ : Nat) (this_ : Nat) (a_newCrcSbc : Nat) : Option Bytes := do
+  let t1 ← CanPayloadBase_getHeader_v2 pd_ pdsize_ this_
+  let m ← CanPayloadBase_Header_setCrcSbc m t1 a_newCrcSbc
+  pure m
+
+/-- `ASAM::CMP::CanPayloadBase::Header::setRtrRrs` (line 54) -/
+def CanPayloadBase_Header_setRtrRrs (m : Bytes) (this_ : Nat) (a_rtrRrs : Bool) : Option Bytes := do
+  let t3 ← (if a_rtrRrs then (do let t1 ← rd m (this_ + 4) 4; pure (t1 ||| 64)) else (do let t2 ← rd m (this_ + 4) 4; pure (t2 &&& (bnot 32 64))))
+  let m ← wr m (this_ + 4) 4 t3
+  pure m
+
+/-- `ASAM::CMP::CanFdPayload::setRrs` (line 21) -/
+def CanFdPayload_setRrs (m : Bytes) (pd_ pdsize_ : Nat) (this_ : Nat) (a_rrs : Bool) : Option Bytes := do
+  let t1 ← CanPayloadBase_getHeader_v2 pd_ pdsize_ this_
+  let m ← CanPayloadBase_Header_setRtrRrs m t1 a_rrs
+  pure m
+
+/-- `ASAM::CMP::CanPayloadBase::Header::setSbc` (line 106) -/
+def CanPayloadBase_Header_setSbc (m : Bytes) (this_ : Nat) (a_sbc : Nat) : Option Bytes := do
+  let t1 ← rd m (this_ + 8) 4
+  let m ← wr m (this_ + 8) 4 (t1 &&& (bnot 32 57344))
+  let t2 ← ushl 32 a_sbc 21
+  let t3 ← swapEndian_u32 t2
+  let t4 ← rd m (this_ + 8) 4
+  let m ← wr m (this_ + 8) 4 (t4 ||| t3)
+  pure m
+
+/-- `ASAM::CMP::CanFdPayload::setSbc` (line 41) -/
+def CanFdPayload_setSbc (m : Bytes) (pd_ pdsize_ : Nat) (this_ : Nat) (a_sbc : Nat) : Option Bytes := do
+  let t1 ← CanPayloadBase_getHeader_v2 pd_ pdsize_ this_
+  let m ← CanPayloadBase_Header_setSbc m t1 a_sbc
+  pure m
+
+/-- `ASAM::CMP::CanPayloadBase::Header::setSbcParity` (line 117) -/
+def CanPayloadBase_Header_setSbcParity (m : Bytes) (this_ : Nat) (a_parity : Bool) : Option Bytes := do
+  let t3 ← (if a_parity then (do let t1 ← rd m (this_ + 8) 4; pure (t1 ||| 1)) else (do let t2 ← rd m (this_ + 8) 4; pure (t2 &&& (bnot 32 1))))
+  let m ← wr m (this_ + 8) 4 t3
+  pure m
+
+/-- `ASAM::CMP::CanFdPayload::setSbcParity` (line 51) -/
+def CanFdPayload_setSbcParity (m : Bytes) (pd_ pdsize_ : Nat) (this_ : Nat) (a_parity : Bool) : Option Bytes := do
+  let t1 ← CanPayloadBase_getHeader_v2 pd_ pdsize_ this_
+  let m ← CanPayloadBase_Header_setSbcParity m t1 a_parity
+  pure m
+
+/-- `ASAM::CMP::CanPayloadBase::Header::setSbcSupport` (line 127) -/
+def CanPayloadBase_Header_setSbcSupport (m : Bytes) (this_ : Nat) (a_support : Bool) : Option Bytes := do
+  let t3 ← (if a_support then (do let t1 ← rd m (this_ + 8) 4; pure (t1 ||| 64)) else (do let t2 ← rd m (this_ + 8) 4; pure (t2 &&& (bnot 32 64))))
+  let m ← wr m (this_ + 8) 4 t3
+  pure m
+
+/-- `ASAM::CMP::CanFdPayload::setSbcSupport` (line 61) -/
+def CanFdPayload_setSbcSupport (m : Bytes) (pd_ pdsize_ : Nat) (this_ : Nat) (a_support : Bool) : Option Bytes := do
+  let t1 ← CanPayloadBase_getHeader_v2 pd_ pdsize_ this_
+  let m ← CanPayloadBase_Header_setSbcSupport m t1 a_support
+  pure m
+
 /-- `ASAM::CMP::CanPayloadBase::Header::getCrc` (line 69) -/
 def CanPayloadBase_Header_getCrc (m : Bytes) (this_ : Nat) : Option Nat := do
   let t1 ← rd m (this_ + 8) 4
   let t2 ← swapEndian_u32 (t1 &&& 4286513152)
   pure (t2 % 65536)
 
-/-- `ASAM::CMP::CanPayloadBase::Header::getCrcSbc` (line 90) -/
-def CanPayloadBase_Header_getCrcSbc (m : Bytes) (this_ : Nat) : Option Nat := do
-  let t1 ← rd m (this_ + 8) 4
-  let t2 ← swapEndian_u32 (t1 &&& 4294909696)
+/-- `ASAM::CMP::CanPayload::getCrc` (line 25) -/
+def CanPayload_getCrc (m : Bytes) (pd_ pdsize_ : Nat) (this_ : Nat) : Option Nat := do
+  let t1 ← CanPayloadBase_getHeader_v pd_ pdsize_ this_
+  let t2 ← CanPayloadBase_Header_getCrc m t1
   pure t2
+
+/-- `ASAM::CMP::CanPayload::getRtr` (line 15) -/
+def CanPayload_getRtr (m : Bytes) (pd_ pdsize_ : Nat) (this_ : Nat) : Option Bool := do
+  let t1 ← CanPayloadBase_getHeader_v pd_ pdsize_ this_
+  let t2 ← CanPayloadBase_Header_getRtrRrs m t1
+  pure t2
+
+/-- `ASAM::CMP::CanPayloadBase::Header::setCrc` (line 74) -/
+def CanPayloadBase_Header_setCrc (m : Bytes) (this_ : Nat) (a_newCrc : Nat) : Option Bytes := do
+  let t1 ← rd m (this_ + 8) 4
+  let m ← wr m (this_ + 8) 4 (t1 &&& (bnot 32 4286513152))
+  let t2 ← swapEndian_u32 a_newCrc
+  let t3 ← rd m (this_ + 8) 4
+  let m ← wr m (this_ + 8) 4 (t3 ||| t2)
+  pure m
+
+/-- `ASAM::CMP::CanPayload::setCrc` (line 30) -/
+def CanPayload_setCrc (m : Bytes) (pd_ pdsize_ : Nat) (this_ : Nat) (a_crc : Nat) : Option Bytes := do
+  let t1 ← CanPayloadBase_getHeader_v2 pd_ pdsize_ this_
+  let m ← CanPayloadBase_Header_setCrc m t1 a_crc
+  pure m
+
+/-- `ASAM::CMP::CanPayload::setRtr` (line 20) -/
+def CanPayload_setRtr (m : Bytes) (pd_ pdsize_ : Nat) (this_ : Nat) (a_rtr : Bool) : Option Bytes := do
+  let t1 ← CanPayloadBase_getHeader_v2 pd_ pdsize_ this_
+  let m ← CanPayloadBase_Header_setRtrRrs m t1 a_rtr
+  pure m
 
 /-- `ASAM::CMP::CanPayloadBase::Header::getCrcSupport` (line 80) -/
 def CanPayloadBase_Header_getCrcSupport (m : Bytes) (this_ : Nat) : Option Bool := do
@@ -129,51 +351,11 @@ def CanPayloadBase_Header_getRsvd (m : Bytes) (this_ : Nat) : Option Bool := do
   let t1 ← rd m (this_ + 4) 4
   pure ((t1 &&& 32) != 0)
 
-/-- `ASAM::CMP::CanPayloadBase::Header::getRtrRrs` (line 49) -/
-def CanPayloadBase_Header_getRtrRrs (m : Bytes) (this_ : Nat) : Option Bool := do
-  let t1 ← rd m (this_ + 4) 4
-  pure ((t1 &&& 64) != 0)
-
-/-- `ASAM::CMP::CanPayloadBase::Header::getSbc` (line 101) -/
-def CanPayloadBase_Header_getSbc (m : Bytes) (this_ : Nat) : Option Nat := do
-  let t1 ← rd m (this_ + 8) 4
-  let t2 ← swapEndian_u32 (t1 &&& 57344)
-  let t3 ← ushr 32 t2 21
-  pure (t3 % 256)
-
-/-- `ASAM::CMP::CanPayloadBase::Header::getSbcParity` (line 112) -/
-def CanPayloadBase_Header_getSbcParity (m : Bytes) (this_ : Nat) : Option Bool := do
-  let t1 ← rd m (this_ + 8) 4
-  pure ((t1 &&& 1) != 0)
-
-/-- `ASAM::CMP::CanPayloadBase::Header::getSbcSupport` (line 122) -/
-def CanPayloadBase_Header_getSbcSupport (m : Bytes) (this_ : Nat) : Option Bool := do
-  let t1 ← rd m (this_ + 8) 4
-  pure ((t1 &&& 64) != 0)
-
 /-- `ASAM::CMP::CanPayloadBase::Header::hasError` (line 142) -/
 def CanPayloadBase_Header_hasError (m : Bytes) (this_ : Nat) : Option Bool := do
   let t1 ← rd m this_ 2
   let t3 ← (if ((t1 &&& 65283) != 0) then pure true else (do let t2 ← rd m (this_ + 12) 2; pure (t2 != 0)))
   pure t3
-
-/-- `ASAM::CMP::CanPayloadBase::Header::setCrc` (line 74) -/
-def CanPayloadBase_Header_setCrc (m : Bytes) (this_ : Nat) (a_newCrc : Nat) : Option Bytes := do
-  let t1 ← rd m (this_ + 8) 4
-  let m ← wr m (this_ + 8) 4 (t1 &&& (bnot 32 4286513152))
-  let t2 ← swapEndian_u32 a_newCrc
-  let t3 ← rd m (this_ + 8) 4
-  let m ← wr m (this_ + 8) 4 (t3 ||| t2)
-  pure m
-
-/-- `ASAM::CMP::CanPayloadBase::Header::setCrcSbc` (line 95) -/
-def CanPayloadBase_Header_setCrcSbc (m : Bytes) (this_ : Nat) (a_newCrcSbc : Nat) : Option Bytes := do
-  let t1 ← rd m (this_ + 8) 4
-  let m ← wr m (this_ + 8) 4 (t1 &&& (bnot 32 4294909696))
-  let t2 ← swapEndian_u32 a_newCrcSbc
-  let t3 ← rd m (this_ + 8) 4
-  let m ← wr m (this_ + 8) 4 (t3 ||| t2)
-  pure m
 
 /-- `ASAM::CMP::CanPayloadBase::Header::setCrcSupport` (line 85) -/
 def CanPayloadBase_Header_setCrcSupport (m : Bytes) (this_ : Nat) (a_support : Bool) : Option Bytes := do
@@ -235,34 +417,6 @@ def CanPayloadBase_Header_setRsvd (m : Bytes) (this_ : Nat) (a_rsvd : Bool) : Op
   let m ← wr m (this_ + 4) 4 t3
   pure m
 
-/-- `ASAM::CMP::CanPayloadBase::Header::setRtrRrs` (line 54) -/
-def CanPayloadBase_Header_setRtrRrs (m : Bytes) (this_ : Nat) (a_rtrRrs : Bool) : Option Bytes := do
-  let t3 ← (if a_rtrRrs then (do let t1 ← rd m (this_ + 4) 4; pure (t1 ||| 64)) else (do let t2 ← rd m (this_ + 4) 4; pure (t2 &&& (bnot 32 64))))
-  let m ← wr m (this_ + 4) 4 t3
-  pure m
-
-/-- `ASAM::CMP::CanPayloadBase::Header::setSbc` (line 106) -/
-def CanPayloadBase_Header_setSbc (m : Bytes) (this_ : Nat) (a_sbc : Nat) : Option Bytes := do
-  let t1 ← rd m (this_ + 8) 4
-  let m ← wr m (this_ + 8) 4 (t1 &&& (bnot 32 57344))
-  let t2 ← ushl 32 a_sbc 21
-  let t3 ← swapEndian_u32 t2
-  let t4 ← rd m (this_ + 8) 4
-  let m ← wr m (this_ + 8) 4 (t4 ||| t3)
-  pure m
-
-/-- `ASAM::CMP::CanPayloadBase::Header::setSbcParity` (line 117) -/
-def CanPayloadBase_Header_setSbcParity (m : Bytes) (this_ : Nat) (a_parity : Bool) : Option Bytes := do
-  let t3 ← (if a_parity then (do let t1 ← rd m (this_ + 8) 4; pure (t1 ||| 1)) else (do let t2 ← rd m (this_ + 8) 4; pure (t2 &&& (bnot 32 1))))
-  let m ← wr m (this_ + 8) 4 t3
-  pure m
-
-/-- `ASAM::CMP::CanPayloadBase::Header::setSbcSupport` (line 127) -/
-def CanPayloadBase_Header_setSbcSupport (m : Bytes) (this_ : Nat) (a_support : Bool) : Option Bytes := do
-  let t3 ← (if a_support then (do let t1 ← rd m (this_ + 8) 4; pure (t1 ||| 64)) else (do let t2 ← rd m (this_ + 8) 4; pure (t2 &&& (bnot 32 64))))
-  let m ← wr m (this_ + 8) 4 t3
-  pure m
-
 /-- `ASAM::CMP::CanPayloadBase::encodeDlc` (line 285) -/
 def CanPayloadBase_encodeDlc (this_ : Nat) (a_dataLength : Nat) : Option Nat := do
   if (sle 32 a_dataLength 8) then
@@ -286,12 +440,113 @@ def CanPayloadBase_encodeDlc (this_ : Nat) (a_dataLength : Nat) : Option Nat := 
     else
       pure 0
 
+/-- `ASAM::CMP::CanPayloadBase::getCrcSupport` (line 217) -/
+def CanPayloadBase_getCrcSupport (m : Bytes) (pd_ pdsize_ : Nat) (this_ : Nat) : Option Bool := do
+  let t1 ← CanPayloadBase_getHeader_v pd_ pdsize_ this_
+  let t2 ← CanPayloadBase_Header_getCrcSupport m t1
+  pure t2
+
+/-- `ASAM::CMP::CanPayloadBase::getDataLength` (line 242) -/
+def CanPayloadBase_getDataLength (m : Bytes) (pd_ pdsize_ : Nat) (this_ : Nat) : Option Nat := do
+  let t1 ← CanPayloadBase_getHeader_v pd_ pdsize_ this_
+  let t2 ← CanPayloadBase_Header_getDataLength m t1
+  pure t2
+
+/-- `ASAM::CMP::CanPayloadBase::getData` (line 247) -/
+def CanPayloadBase_getData (m : Bytes) (pd_ pdsize_ : Nat) (this_ : Nat) : Option Nat := do
+  let t1 ← CanPayloadBase_getDataLength m pd_ pdsize_ this_
+  pure (if (t1 != 0) then (pd_ + 16) else 0)
+
+/-- `ASAM::CMP::CanPayloadBase::getDlc` (line 237) -/
+def CanPayloadBase_getDlc (m : Bytes) (pd_ pdsize_ : Nat) (this_ : Nat) : Option Nat := do
+  let t1 ← CanPayloadBase_getHeader_v pd_ pdsize_ this_
+  let t2 ← CanPayloadBase_Header_getDlc m t1
+  pure t2
+
+/-- `ASAM::CMP::CanPayloadBase::getErrorPosition` (line 227) -/
+def CanPayloadBase_getErrorPosition (m : Bytes) (pd_ pdsize_ : Nat) (this_ : Nat) : Option Nat := do
+  let t1 ← CanPayloadBase_getHeader_v pd_ pdsize_ this_
+  let t2 ← CanPayloadBase_Header_getErrorPosition m t1
+  pure t2
+
+/-- `ASAM::CMP::CanPayloadBase::getFlag` (line 177) -/
+def CanPayloadBase_getFlag (m : Bytes) (pd_ pdsize_ : Nat) (this_ : Nat) (a_mask : Nat) : Option Bool := do
+  let t1 ← CanPayloadBase_getHeader_v pd_ pdsize_ this_
+  let t2 ← CanPayloadBase_Header_getFlag m t1 a_mask
+  pure t2
+
+/-- `ASAM::CMP::CanPayloadBase::getFlags` (line 167) -/
+def CanPayloadBase_getFlags (m : Bytes) (pd_ pdsize_ : Nat) (this_ : Nat) : Option Nat := do
+  let t1 ← CanPayloadBase_getHeader_v pd_ pdsize_ this_
+  let t2 ← CanPayloadBase_Header_getFlags m t1
+  pure t2
+
+/-- `ASAM::CMP::CanPayloadBase::getId` (line 187) -/
+def CanPayloadBase_getId (m : Bytes) (pd_ pdsize_ : Nat) (this_ : Nat) : Option Nat := do
+  let t1 ← CanPayloadBase_getHeader_v pd_ pdsize_ this_
+  let t2 ← CanPayloadBase_Header_getId m t1
+  pure t2
+
+/-- `ASAM::CMP::CanPayloadBase::getIde` (line 207) -/
+def CanPayloadBase_getIde (m : Bytes) (pd_ pdsize_ : Nat) (this_ : Nat) : Option Bool := do
+  let t1 ← CanPayloadBase_getHeader_v pd_ pdsize_ this_
+  let t2 ← CanPayloadBase_Header_getIde m t1
+  pure t2
+
+/-- `ASAM::CMP::CanPayloadBase::getRsvd` (line 197) -/
+def CanPayloadBase_getRsvd (m : Bytes) (pd_ pdsize_ : Nat) (this_ : Nat) : Option Bool := do
+  let t1 ← CanPayloadBase_getHeader_v pd_ pdsize_ this_
+  let t2 ← CanPayloadBase_Header_getRsvd m t1
+  pure t2
+
 /-- `ASAM::CMP::CanPayloadBase::isValidPayload` (line 259) -/
 def CanPayloadBase_isValidPayload (m : Bytes) (a_data : Nat) (a_size : Nat) : Option Bool := do
   let v_header := a_data
   let t2 ← (if (decide (a_size ≥ 16)) then (do let t1 ← CanPayloadBase_Header_hasError m v_header; pure (!t1)) else pure false)
   let t4 ← (if t2 then (do let t3 ← CanPayloadBase_Header_getDataLength m v_header; pure (decide (t3 ≤ (usub 64 a_size 16)))) else pure false)
   pure t4
+
+/-- `ASAM::CMP::CanPayloadBase::setCrcSupport` (line 222) -/
+def CanPayloadBase_setCrcSupport (m : Bytes) (pd_ pdsize_ : Nat) (this_ : Nat) (a_support : Bool) : Option Bytes := do
+  let t1 ← CanPayloadBase_getHeader_v2 pd_ pdsize_ this_
+  let m ← CanPayloadBase_Header_setCrcSupport m t1 a_support
+  pure m
+
+/-- `ASAM::CMP::CanPayloadBase::setErrorPosition` (line 232) -/
+def CanPayloadBase_setErrorPosition (m : Bytes) (pd_ pdsize_ : Nat) (this_ : Nat) (a_position : Nat) : Option Bytes := do
+  let t1 ← CanPayloadBase_getHeader_v2 pd_ pdsize_ this_
+  let m ← CanPayloadBase_Header_setErrorPosition m t1 a_position
+  pure m
+
+/-- `ASAM::CMP::CanPayloadBase::setFlag` (line 182) -/
+def CanPayloadBase_setFlag (m : Bytes) (pd_ pdsize_ : Nat) (this_ : Nat) (a_mask : Nat) (a_value : Bool) : Option Bytes := do
+  let t1 ← CanPayloadBase_getHeader_v2 pd_ pdsize_ this_
+  let m ← CanPayloadBase_Header_setFlag m t1 a_mask a_value
+  pure m
+
+/-- `ASAM::CMP::CanPayloadBase::setFlags` (line 172) -/
+def CanPayloadBase_setFlags (m : Bytes) (pd_ pdsize_ : Nat) (this_ : Nat) (a_flags : Nat) : Option Bytes := do
+  let t1 ← CanPayloadBase_getHeader_v2 pd_ pdsize_ this_
+  let m ← CanPayloadBase_Header_setFlags m t1 a_flags
+  pure m
+
+/-- `ASAM::CMP::CanPayloadBase::setId` (line 192) -/
+def CanPayloadBase_setId (m : Bytes) (pd_ pdsize_ : Nat) (this_ : Nat) (a_id : Nat) : Option Bytes := do
+  let t1 ← CanPayloadBase_getHeader_v2 pd_ pdsize_ this_
+  let m ← CanPayloadBase_Header_setId m t1 a_id
+  pure m
+
+/-- `ASAM::CMP::CanPayloadBase::setIde` (line 212) -/
+def CanPayloadBase_setIde (m : Bytes) (pd_ pdsize_ : Nat) (this_ : Nat) (a_ide : Bool) : Option Bytes := do
+  let t1 ← CanPayloadBase_getHeader_v2 pd_ pdsize_ this_
+  let m ← CanPayloadBase_Header_setIde m t1 a_ide
+  pure m
+
+/-- `ASAM::CMP::CanPayloadBase::setRsvd` (line 202) -/
+def CanPayloadBase_setRsvd (m : Bytes) (pd_ pdsize_ : Nat) (this_ : Nat) (a_rsvd : Bool) : Option Bytes := do
+  let t1 ← CanPayloadBase_getHeader_v2 pd_ pdsize_ this_
+  let m ← CanPayloadBase_Header_setRsvd m t1 a_rsvd
+  pure m
 
 /-- `ASAM::CMP::CaptureModulePayload::Header::getCurrentUtcOffset` (line 37) -/
 def CaptureModulePayload_Header_getCurrentUtcOffset (m : Bytes) (this_ : Nat) : Option Nat := do
@@ -383,6 +638,56 @@ def CaptureModulePayload_Header_setUptime (m : Bytes) (this_ : Nat) (a_newUptime
   let m ← wr m this_ 8 t1
   pure m
 
+/-- `ASAM::CMP::CaptureModulePayload::getHeader` (line 275) -/
+def CaptureModulePayload_getHeader_v (pd_ pdsize_ : Nat) (this_ : Nat) : Option Nat := do
+  pure pd_
+
+/-- `ASAM::CMP::CaptureModulePayload::getCurrentUtcOffset` (line 117) -/
+def CaptureModulePayload_getCurrentUtcOffset (m : Bytes) (pd_ pdsize_ : Nat) (this_ : Nat) : Option Nat := do
+  let t1 ← CaptureModulePayload_getHeader_v pd_ pdsize_ this_
+  let t2 ← CaptureModulePayload_Header_getCurrentUtcOffset m t1
+  pure t2
+
+/-- `ASAM::CMP::CaptureModulePayload::getDomainNumber` (line 137) -/
+def CaptureModulePayload_getDomainNumber (m : Bytes) (pd_ pdsize_ : Nat) (this_ : Nat) : Option Nat := do
+  let t1 ← CaptureModulePayload_getHeader_v pd_ pdsize_ this_
+  let t2 ← CaptureModulePayload_Header_getDomainNumber m t1
+  pure t2
+
+/-- `ASAM::CMP::CaptureModulePayload::getGmClockQuality` (line 107) -/
+def CaptureModulePayload_getGmClockQuality (m : Bytes) (pd_ pdsize_ : Nat) (this_ : Nat) : Option Nat := do
+  let t1 ← CaptureModulePayload_getHeader_v pd_ pdsize_ this_
+  let t2 ← CaptureModulePayload_Header_getGmClockQuality m t1
+  pure t2
+
+/-- `ASAM::CMP::CaptureModulePayload::getGmIdentity` (line 97) -/
+def CaptureModulePayload_getGmIdentity (m : Bytes) (pd_ pdsize_ : Nat) (this_ : Nat) : Option Nat := do
+  let t1 ← CaptureModulePayload_getHeader_v pd_ pdsize_ this_
+  let t2 ← CaptureModulePayload_Header_getGmIdentity m t1
+  pure t2
+
+/-- `ASAM::CMP::CaptureModulePayload::getGptpFlags` (line 147) -/
+def CaptureModulePayload_getGptpFlags (m : Bytes) (pd_ pdsize_ : Nat) (this_ : Nat) : Option Nat := do
+  let t1 ← CaptureModulePayload_getHeader_v pd_ pdsize_ this_
+  let t2 ← CaptureModulePayload_Header_getGptpFlags m t1
+  pure t2
+
+/-- `ASAM::CMP::CaptureModulePayload::getHeader` (line 280) -/
+def CaptureModulePayload_getHeader_v2 (pd_ pdsize_ : Nat) (this_ : Nat) : Option Nat := do
+  pure pd_
+
+/-- `ASAM::CMP::CaptureModulePayload::getTimeSource` (line 127) -/
+def CaptureModulePayload_getTimeSource (m : Bytes) (pd_ pdsize_ : Nat) (this_ : Nat) : Option Nat := do
+  let t1 ← CaptureModulePayload_getHeader_v pd_ pdsize_ this_
+  let t2 ← CaptureModulePayload_Header_getTimeSource m t1
+  pure t2
+
+/-- `ASAM::CMP::CaptureModulePayload::getUptime` (line 87) -/
+def CaptureModulePayload_getUptime (m : Bytes) (pd_ pdsize_ : Nat) (this_ : Nat) : Option Nat := do
+  let t1 ← CaptureModulePayload_getHeader_v pd_ pdsize_ this_
+  let t2 ← CaptureModulePayload_Header_getUptime m t1
+  pure t2
+
 /-- `ASAM::CMP::CaptureModulePayload::isValidPayload` (line 255) -/
 def CaptureModulePayload_isValidPayload (m : Bytes) (a_data : Nat) (a_size : Nat) : Option Bool := do
   if (decide (a_size < 26)) then
@@ -455,6 +760,48 @@ def CaptureModulePayload_isValidPayload (m : Bytes) (a_data : Nat) (a_size : Nat
                       else
                         let v_pos := (uadd 64 v_pos v_length)
                         pure true
+
+/-- `ASAM::CMP::CaptureModulePayload::setCurrentUtcOffset` (line 122) -/
+def CaptureModulePayload_setCurrentUtcOffset (m : Bytes) (pd_ pdsize_ : Nat) (this_ : Nat) (a_offset : Nat) : Option Bytes := do
+  let t1 ← CaptureModulePayload_getHeader_v2 pd_ pdsize_ this_
+  let m ← CaptureModulePayload_Header_setCurrentUtcOffset m t1 a_offset
+  pure m
+
+/-- `ASAM::CMP::CaptureModulePayload::setDomainNumber` (line 142) -/
+def CaptureModulePayload_setDomainNumber (m : Bytes) (pd_ pdsize_ : Nat) (this_ : Nat) (a_number : Nat) : Option Bytes := do
+  let t1 ← CaptureModulePayload_getHeader_v2 pd_ pdsize_ this_
+  let m ← CaptureModulePayload_Header_setDomainNumber m t1 a_number
+  pure m
+
+/-- `ASAM::CMP::CaptureModulePayload::setGmClockQuality` (line 112) -/
+def CaptureModulePayload_setGmClockQuality (m : Bytes) (pd_ pdsize_ : Nat) (this_ : Nat) (a_quality : Nat) : Option Bytes := do
+  let t1 ← CaptureModulePayload_getHeader_v2 pd_ pdsize_ this_
+  let m ← CaptureModulePayload_Header_setGmClockQuality m t1 a_quality
+  pure m
+
+/-- `ASAM::CMP::CaptureModulePayload::setGmIdentity` (line 102) -/
+def CaptureModulePayload_setGmIdentity (m : Bytes) (pd_ pdsize_ : Nat) (this_ : Nat) (a_identity : Nat) : Option Bytes := do
+  let t1 ← CaptureModulePayload_getHeader_v2 pd_ pdsize_ this_
+  let m ← CaptureModulePayload_Header_setGmIdentity m t1 a_identity
+  pure m
+
+/-- `ASAM::CMP::CaptureModulePayload::setGptpFlags` (line 152) -/
+def CaptureModulePayload_setGptpFlags (m : Bytes) (pd_ pdsize_ : Nat) (this_ : Nat) (a_flags : Nat) : Option Bytes := do
+  let t1 ← CaptureModulePayload_getHeader_v2 pd_ pdsize_ this_
+  let m ← CaptureModulePayload_Header_setGptpFlags m t1 a_flags
+  pure m
+
+/-- `ASAM::CMP::CaptureModulePayload::setTimeSource` (line 132) -/
+def CaptureModulePayload_setTimeSource (m : Bytes) (pd_ pdsize_ : Nat) (this_ : Nat) (a_source : Nat) : Option Bytes := do
+  let t1 ← CaptureModulePayload_getHeader_v2 pd_ pdsize_ this_
+  let m ← CaptureModulePayload_Header_setTimeSource m t1 a_source
+  pure m
+
+/-- `ASAM::CMP::CaptureModulePayload::setUptime` (line 92) -/
+def CaptureModulePayload_setUptime (m : Bytes) (pd_ pdsize_ : Nat) (this_ : Nat) (a_newUptime : Nat) : Option Bytes := do
+  let t1 ← CaptureModulePayload_getHeader_v2 pd_ pdsize_ this_
+  let m ← CaptureModulePayload_Header_setUptime m t1 a_newUptime
+  pure m
 
 /-- `ASAM::CMP::CmpHeader::getDeviceId` (line 15) -/
 def CmpHeader_getDeviceId (m : Bytes) (this_ : Nat) : Option Nat := do
@@ -630,12 +977,55 @@ def EthernetPayload_Header_setFlag (m : Bytes) (this_ : Nat) (a_mask : Nat) (a_v
     let m ← EthernetPayload_Header_setFlags m this_ ((t2 &&& (bnot 32 a_mask)) % 65536)
     pure m
 
+/-- `ASAM::CMP::EthernetPayload::getHeader` (line 90) -/
+def EthernetPayload_getHeader_v (pd_ pdsize_ : Nat) (this_ : Nat) : Option Nat := do
+  pure pd_
+
+/-- `ASAM::CMP::EthernetPayload::getDataLength` (line 68) -/
+def EthernetPayload_getDataLength (m : Bytes) (pd_ pdsize_ : Nat) (this_ : Nat) : Option Nat := do
+  let t1 ← EthernetPayload_getHeader_v pd_ pdsize_ this_
+  let t2 ← EthernetPayload_Header_getDataLength m t1
+  pure t2
+
+/-- `ASAM::CMP::EthernetPayload::getData` (line 73) -/
+def EthernetPayload_getData (m : Bytes) (pd_ pdsize_ : Nat) (this_ : Nat) : Option Nat := do
+  let t1 ← EthernetPayload_getDataLength m pd_ pdsize_ this_
+  pure (if (t1 != 0) then (pd_ + 6) else 0)
+
+/-- `ASAM::CMP::EthernetPayload::getFlag` (line 58) -/
+def EthernetPayload_getFlag (m : Bytes) (pd_ pdsize_ : Nat) (this_ : Nat) (a_mask : Nat) : Option Bool := do
+  let t1 ← EthernetPayload_getHeader_v pd_ pdsize_ this_
+  let t2 ← EthernetPayload_Header_getFlag m t1 a_mask
+  pure t2
+
+/-- `ASAM::CMP::EthernetPayload::getFlags` (line 48) -/
+def EthernetPayload_getFlags (m : Bytes) (pd_ pdsize_ : Nat) (this_ : Nat) : Option Nat := do
+  let t1 ← EthernetPayload_getHeader_v pd_ pdsize_ this_
+  let t2 ← EthernetPayload_Header_getFlags m t1
+  pure t2
+
+/-- `ASAM::CMP::EthernetPayload::getHeader` (line 95) -/
+def EthernetPayload_getHeader_v2 (pd_ pdsize_ : Nat) (this_ : Nat) : Option Nat := do
+  pure pd_
+
 /-- `ASAM::CMP::EthernetPayload::isValidPayload` (line 84) -/
 def EthernetPayload_isValidPayload (m : Bytes) (a_data : Nat) (a_size : Nat) : Option Bool := do
   let v_header := a_data
   let t2 ← (if (decide (a_size ≥ 6)) then (do let t1 ← EthernetPayload_Header_getFlags m v_header; pure ((t1 &&& 59) == 0)) else pure false)
   let t4 ← (if t2 then (do let t3 ← EthernetPayload_Header_getDataLength m v_header; pure (decide (t3 ≤ (usub 64 a_size 6)))) else pure false)
   pure t4
+
+/-- `ASAM::CMP::EthernetPayload::setFlag` (line 63) -/
+def EthernetPayload_setFlag (m : Bytes) (pd_ pdsize_ : Nat) (this_ : Nat) (a_mask : Nat) (a_value : Bool) : Option Bytes := do
+  let t1 ← EthernetPayload_getHeader_v2 pd_ pdsize_ this_
+  let m ← EthernetPayload_Header_setFlag m t1 a_mask a_value
+  pure m
+
+/-- `ASAM::CMP::EthernetPayload::setFlags` (line 53) -/
+def EthernetPayload_setFlags (m : Bytes) (pd_ pdsize_ : Nat) (this_ : Nat) (a_newFlags : Nat) : Option Bytes := do
+  let t1 ← EthernetPayload_getHeader_v2 pd_ pdsize_ this_
+  let m ← EthernetPayload_Header_setFlags m t1 a_newFlags
+  pure m
 
 /-- `ASAM::CMP::InterfacePayload::Header::getErrorsTotalRx` (line 55) -/
 def InterfacePayload_Header_getErrorsTotalRx (m : Bytes) (this_ : Nat) : Option Nat := do
@@ -758,11 +1148,120 @@ def InterfacePayload_Header_setMsgTotalTx (m : Bytes) (this_ : Nat) (a_msgTotal 
   let m ← wr m (this_ + 8) 4 t1
   pure m
 
+/-- `ASAM::CMP::InterfacePayload::getHeader` (line 281) -/
+def InterfacePayload_getHeader_v (pd_ pdsize_ : Nat) (this_ : Nat) : Option Nat := do
+  pure pd_
+
+/-- `ASAM::CMP::InterfacePayload::getErrorsTotalRx` (line 165) -/
+def InterfacePayload_getErrorsTotalRx (m : Bytes) (pd_ pdsize_ : Nat) (this_ : Nat) : Option Nat := do
+  let t1 ← InterfacePayload_getHeader_v pd_ pdsize_ this_
+  let t2 ← InterfacePayload_Header_getErrorsTotalRx m t1
+  pure t2
+
+/-- `ASAM::CMP::InterfacePayload::getErrorsTotalTx` (line 175) -/
+def InterfacePayload_getErrorsTotalTx (m : Bytes) (pd_ pdsize_ : Nat) (this_ : Nat) : Option Nat := do
+  let t1 ← InterfacePayload_getHeader_v pd_ pdsize_ this_
+  let t2 ← InterfacePayload_Header_getErrorsTotalTx m t1
+  pure t2
+
+/-- `ASAM::CMP::InterfacePayload::getFeatureSupportBitmask` (line 205) -/
+def InterfacePayload_getFeatureSupportBitmask (m : Bytes) (pd_ pdsize_ : Nat) (this_ : Nat) : Option Nat := do
+  let t1 ← InterfacePayload_getHeader_v pd_ pdsize_ this_
+  let t2 ← InterfacePayload_Header_getFeatureSupportBitmask m t1
+  pure t2
+
+/-- `ASAM::CMP::InterfacePayload::getHeader` (line 286) -/
+def InterfacePayload_getHeader_v2 (pd_ pdsize_ : Nat) (this_ : Nat) : Option Nat := do
+  pure pd_
+
+/-- `ASAM::CMP::InterfacePayload::getInterfaceId` (line 115) -/
+def InterfacePayload_getInterfaceId (m : Bytes) (pd_ pdsize_ : Nat) (this_ : Nat) : Option Nat := do
+  let t1 ← InterfacePayload_getHeader_v pd_ pdsize_ this_
+  let t2 ← InterfacePayload_Header_getInterfaceId m t1
+  pure t2
+
+/-- `ASAM::CMP::InterfacePayload::getInterfaceStatus` (line 195) -/
+def InterfacePayload_getInterfaceStatus (m : Bytes) (pd_ pdsize_ : Nat) (this_ : Nat) : Option Nat := do
+  let t1 ← InterfacePayload_getHeader_v pd_ pdsize_ this_
+  let t2 ← InterfacePayload_Header_getInterfaceStatus m t1
+  pure t2
+
+/-- `ASAM::CMP::InterfacePayload::getInterfaceType` (line 185) -/
+def InterfacePayload_getInterfaceType (m : Bytes) (pd_ pdsize_ : Nat) (this_ : Nat) : Option Nat := do
+  let t1 ← InterfacePayload_getHeader_v pd_ pdsize_ this_
+  let t2 ← InterfacePayload_Header_getInterfaceType m t1
+  pure t2
+
+/-- `ASAM::CMP::InterfacePayload::getMsgDroppedRx` (line 145) -/
+def InterfacePayload_getMsgDroppedRx (m : Bytes) (pd_ pdsize_ : Nat) (this_ : Nat) : Option Nat := do
+  let t1 ← InterfacePayload_getHeader_v pd_ pdsize_ this_
+  let t2 ← InterfacePayload_Header_getMsgDroppedRx m t1
+  pure t2
+
+/-- `ASAM::CMP::InterfacePayload::getMsgDroppedTx` (line 155) -/
+def InterfacePayload_getMsgDroppedTx (m : Bytes) (pd_ pdsize_ : Nat) (this_ : Nat) : Option Nat := do
+  let t1 ← InterfacePayload_getHeader_v pd_ pdsize_ this_
+  let t2 ← InterfacePayload_Header_getMsgDroppedTx m t1
+  pure t2
+
+/-- `ASAM::CMP::InterfacePayload::getMsgTotalRx` (line 125) -/
+def InterfacePayload_getMsgTotalRx (m : Bytes) (pd_ pdsize_ : Nat) (this_ : Nat) : Option Nat := do
+  let t1 ← InterfacePayload_getHeader_v pd_ pdsize_ this_
+  let t2 ← InterfacePayload_Header_getMsgTotalRx m t1
+  pure t2
+
+/-- `ASAM::CMP::InterfacePayload::getMsgTotalTx` (line 135) -/
+def InterfacePayload_getMsgTotalTx (m : Bytes) (pd_ pdsize_ : Nat) (this_ : Nat) : Option Nat := do
+  let t1 ← InterfacePayload_getHeader_v pd_ pdsize_ this_
+  let t2 ← InterfacePayload_Header_getMsgTotalTx m t1
+  pure t2
+
+/-- `ASAM::CMP::InterfacePayload::getStreamIdCountPtr` (line 291) -/
+def InterfacePayload_getStreamIdCountPtr (pd_ pdsize_ : Nat) (this_ : Nat) : Option Nat := do
+  pure (pd_ + 36)
+
 /-- `ASAM::CMP::InterfacePayload::toUint16` (line 306) -/
 def InterfacePayload_toUint16 (m : Bytes) (this_ : Nat) (a_ptr : Nat) : Option Nat := do
   let t1 ← rd m a_ptr 2
   let t2 ← swapEndian_u16 t1
   pure t2
+
+/-- `ASAM::CMP::InterfacePayload::getStreamIdsCount` (line 215) -/
+def InterfacePayload_getStreamIdsCount (m : Bytes) (pd_ pdsize_ : Nat) (this_ : Nat) : Option Nat := do
+  let t1 ← InterfacePayload_getStreamIdCountPtr pd_ pdsize_ this_
+  let t2 ← InterfacePayload_toUint16 m this_ t1
+  pure t2
+
+/-- `ASAM::CMP::InterfacePayload::getStreamIds` (line 220) -/
+def InterfacePayload_getStreamIds (m : Bytes) (pd_ pdsize_ : Nat) (this_ : Nat) : Option Nat := do
+  let t1 ← InterfacePayload_getStreamIdsCount m pd_ pdsize_ this_
+  let t3 ← (if (t1 != 0) then (do let t2 ← InterfacePayload_getStreamIdCountPtr pd_ pdsize_ this_; pure (t2 + 2)) else (do pure 0))
+  pure t3
+
+/-- `ASAM::CMP::InterfacePayload::getVendorDataLengthPtr` (line 296) -/
+def InterfacePayload_getVendorDataLengthPtr (m : Bytes) (pd_ pdsize_ : Nat) (this_ : Nat) : Option Nat := do
+  let t1 ← InterfacePayload_getStreamIdCountPtr pd_ pdsize_ this_
+  let v_countPtr := t1
+  let t2 ← InterfacePayload_toUint16 m this_ v_countPtr
+  let v_count := t2
+  let t3 ← umod 64 v_count 2
+  if (t3 != 0) then
+    let v_count := (uadd 64 v_count 1)
+    pure ((v_countPtr + 2) + v_count)
+  else
+    pure ((v_countPtr + 2) + v_count)
+
+/-- `ASAM::CMP::InterfacePayload::getVendorDataLength` (line 225) -/
+def InterfacePayload_getVendorDataLength (m : Bytes) (pd_ pdsize_ : Nat) (this_ : Nat) : Option Nat := do
+  let t1 ← InterfacePayload_getVendorDataLengthPtr m pd_ pdsize_ this_
+  let t2 ← InterfacePayload_toUint16 m this_ t1
+  pure t2
+
+/-- `ASAM::CMP::InterfacePayload::getVendorData` (line 230) -/
+def InterfacePayload_getVendorData (m : Bytes) (pd_ pdsize_ : Nat) (this_ : Nat) : Option Nat := do
+  let t1 ← InterfacePayload_getVendorDataLength m pd_ pdsize_ this_
+  let t3 ← (if (t1 != 0) then (do let t2 ← InterfacePayload_getVendorDataLengthPtr m pd_ pdsize_ this_; pure (t2 + 2)) else (do pure 0))
+  pure t3
 
 /-- `ASAM::CMP::InterfacePayload::isValidPayload` (line 263) -/
 def InterfacePayload_isValidPayload (m : Bytes) (a_data : Nat) (a_size : Nat) : Option Bool := do
@@ -788,6 +1287,66 @@ def InterfacePayload_isValidPayload (m : Bytes) (a_data : Nat) (a_size : Nat) : 
       let t9 ← rd m (a_data + (uadd 64 v_pos 1)) 1
       let v_vendorDataLength := (t8 ||| t9)
       pure (decide (v_vendorDataLength ≤ (usub 64 (usub 64 a_size v_pos) 2)))
+
+/-- `ASAM::CMP::InterfacePayload::setErrorsTotalRx` (line 170) -/
+def InterfacePayload_setErrorsTotalRx (m : Bytes) (pd_ pdsize_ : Nat) (this_ : Nat) (a_errorsTotal : Nat) : Option Bytes := do
+  let t1 ← InterfacePayload_getHeader_v2 pd_ pdsize_ this_
+  let m ← InterfacePayload_Header_setErrorsTotalRx m t1 a_errorsTotal
+  pure m
+
+/-- `ASAM::CMP::InterfacePayload::setErrorsTotalTx` (line 180) -/
+def InterfacePayload_setErrorsTotalTx (m : Bytes) (pd_ pdsize_ : Nat) (this_ : Nat) (a_errorsTotal : Nat) : Option Bytes := do
+  let t1 ← InterfacePayload_getHeader_v2 pd_ pdsize_ this_
+  let m ← InterfacePayload_Header_setErrorsTotalTx m t1 a_errorsTotal
+  pure m
+
+/-- `ASAM::CMP::InterfacePayload::setFeatureSupportBitmask` (line 210) -/
+def InterfacePayload_setFeatureSupportBitmask (m : Bytes) (pd_ pdsize_ : Nat) (this_ : Nat) (a_bitmask : Nat) : Option Bytes := do
+  let t1 ← InterfacePayload_getHeader_v2 pd_ pdsize_ this_
+  let m ← InterfacePayload_Header_setFeatureSupportBitmask m t1 a_bitmask
+  pure m
+
+/-- `ASAM::CMP::InterfacePayload::setInterfaceId` (line 120) -/
+def InterfacePayload_setInterfaceId (m : Bytes) (pd_ pdsize_ : Nat) (this_ : Nat) (a_id : Nat) : Option Bytes := do
+  let t1 ← InterfacePayload_getHeader_v2 pd_ pdsize_ this_
+  let m ← InterfacePayload_Header_setInterfaceId m t1 a_id
+  pure m
+
+/-- `ASAM::CMP::InterfacePayload::setInterfaceStatus` (line 200) -/
+def InterfacePayload_setInterfaceStatus (m : Bytes) (pd_ pdsize_ : Nat) (this_ : Nat) (a_status : Nat) : Option Bytes := do
+  let t1 ← InterfacePayload_getHeader_v2 pd_ pdsize_ this_
+  let m ← InterfacePayload_Header_setInterfaceStatus m t1 a_status
+  pure m
+
+/-- `ASAM::CMP::InterfacePayload::setInterfaceType` (line 190) -/
+def InterfacePayload_setInterfaceType (m : Bytes) (pd_ pdsize_ : Nat) (this_ : Nat) (a_ifType : Nat) : Option Bytes := do
+  let t1 ← InterfacePayload_getHeader_v2 pd_ pdsize_ this_
+  let m ← InterfacePayload_Header_setInterfaceType m t1 a_ifType
+  pure m
+
+/-- `ASAM::CMP::InterfacePayload::setMsgDroppedRx` (line 150) -/
+def InterfacePayload_setMsgDroppedRx (m : Bytes) (pd_ pdsize_ : Nat) (this_ : Nat) (a_msgDropped : Nat) : Option Bytes := do
+  let t1 ← InterfacePayload_getHeader_v2 pd_ pdsize_ this_
+  let m ← InterfacePayload_Header_setMsgDroppedRx m t1 a_msgDropped
+  pure m
+
+/-- `ASAM::CMP::InterfacePayload::setMsgDroppedTx` (line 160) -/
+def InterfacePayload_setMsgDroppedTx (m : Bytes) (pd_ pdsize_ : Nat) (this_ : Nat) (a_msgDropped : Nat) : Option Bytes := do
+  let t1 ← InterfacePayload_getHeader_v2 pd_ pdsize_ this_
+  let m ← InterfacePayload_Header_setMsgDroppedTx m t1 a_msgDropped
+  pure m
+
+/-- `ASAM::CMP::InterfacePayload::setMsgTotalRx` (line 130) -/
+def InterfacePayload_setMsgTotalRx (m : Bytes) (pd_ pdsize_ : Nat) (this_ : Nat) (a_msgTotal : Nat) : Option Bytes := do
+  let t1 ← InterfacePayload_getHeader_v2 pd_ pdsize_ this_
+  let m ← InterfacePayload_Header_setMsgTotalRx m t1 a_msgTotal
+  pure m
+
+/-- `ASAM::CMP::InterfacePayload::setMsgTotalTx` (line 140) -/
+def InterfacePayload_setMsgTotalTx (m : Bytes) (pd_ pdsize_ : Nat) (this_ : Nat) (a_msgTotal : Nat) : Option Bytes := do
+  let t1 ← InterfacePayload_getHeader_v2 pd_ pdsize_ this_
+  let m ← InterfacePayload_Header_setMsgTotalTx m t1 a_msgTotal
+  pure m
 
 /-- `ASAM::CMP::InterfaceStatus::getInterfaceId` (line 22) -/
 def InterfaceStatus_getInterfaceId (m : Bytes) (this_ : Nat) : Option Nat := do
@@ -870,11 +1429,90 @@ def LinPayload_Header_setParityBits (m : Bytes) (this_ : Nat) (a_parity : Nat) :
   let m ← wr m (this_ + 4) 1 ((t3 ||| t2) % 256)
   pure m
 
+/-- `ASAM::CMP::LinPayload::getHeader` (line 152) -/
+def LinPayload_getHeader_v (pd_ pdsize_ : Nat) (this_ : Nat) : Option Nat := do
+  pure pd_
+
+/-- `ASAM::CMP::LinPayload::getChecksum` (line 120) -/
+def LinPayload_getChecksum (m : Bytes) (pd_ pdsize_ : Nat) (this_ : Nat) : Option Nat := do
+  let t1 ← LinPayload_getHeader_v pd_ pdsize_ this_
+  let t2 ← LinPayload_Header_getChecksum m t1
+  pure t2
+
+/-- `ASAM::CMP::LinPayload::getDataLength` (line 130) -/
+def LinPayload_getDataLength (m : Bytes) (pd_ pdsize_ : Nat) (this_ : Nat) : Option Nat := do
+  let t1 ← LinPayload_getHeader_v pd_ pdsize_ this_
+  let t2 ← LinPayload_Header_getDataLength m t1
+  pure t2
+
+/-- `ASAM::CMP::LinPayload::getData` (line 135) -/
+def LinPayload_getData (m : Bytes) (pd_ pdsize_ : Nat) (this_ : Nat) : Option Nat := do
+  let t1 ← LinPayload_getDataLength m pd_ pdsize_ this_
+  pure (if (t1 != 0) then (pd_ + 8) else 0)
+
+/-- `ASAM::CMP::LinPayload::getFlag` (line 90) -/
+def LinPayload_getFlag (m : Bytes) (pd_ pdsize_ : Nat) (this_ : Nat) (a_mask : Nat) : Option Bool := do
+  let t1 ← LinPayload_getHeader_v pd_ pdsize_ this_
+  let t2 ← LinPayload_Header_getFlag m t1 a_mask
+  pure t2
+
+/-- `ASAM::CMP::LinPayload::getFlags` (line 80) -/
+def LinPayload_getFlags (m : Bytes) (pd_ pdsize_ : Nat) (this_ : Nat) : Option Nat := do
+  let t1 ← LinPayload_getHeader_v pd_ pdsize_ this_
+  let t2 ← LinPayload_Header_getFlags m t1
+  pure t2
+
+/-- `ASAM::CMP::LinPayload::getHeader` (line 157) -/
+def LinPayload_getHeader_v2 (pd_ pdsize_ : Nat) (this_ : Nat) : Option Nat := do
+  pure pd_
+
+/-- `ASAM::CMP::LinPayload::getLinId` (line 100) -/
+def LinPayload_getLinId (m : Bytes) (pd_ pdsize_ : Nat) (this_ : Nat) : Option Nat := do
+  let t1 ← LinPayload_getHeader_v pd_ pdsize_ this_
+  let t2 ← LinPayload_Header_getLinId m t1
+  pure t2
+
+/-- `ASAM::CMP::LinPayload::getParityBits` (line 110) -/
+def LinPayload_getParityBits (m : Bytes) (pd_ pdsize_ : Nat) (this_ : Nat) : Option Nat := do
+  let t1 ← LinPayload_getHeader_v pd_ pdsize_ this_
+  let t2 ← LinPayload_Header_getParityBits m t1
+  pure t2
+
 /-- `ASAM::CMP::LinPayload::isValidPayload` (line 146) -/
 def LinPayload_isValidPayload (m : Bytes) (a_data : Nat) (a_size : Nat) : Option Bool := do
   let v_header := a_data
   let t2 ← (if (decide (a_size ≥ 8)) then (do let t1 ← LinPayload_Header_getDataLength m v_header; pure (decide (t1 ≤ (usub 64 a_size 8)))) else pure false)
   pure t2
+
+/-- `ASAM::CMP::LinPayload::setChecksum` (line 125) -/
+def LinPayload_setChecksum (m : Bytes) (pd_ pdsize_ : Nat) (this_ : Nat) (a_checksum : Nat) : Option Bytes := do
+  let t1 ← LinPayload_getHeader_v2 pd_ pdsize_ this_
+  let m ← LinPayload_Header_setChecksum m t1 a_checksum
+  pure m
+
+/-- `ASAM::CMP::LinPayload::setFlag` (line 95) -/
+def LinPayload_setFlag (m : Bytes) (pd_ pdsize_ : Nat) (this_ : Nat) (a_mask : Nat) (a_value : Bool) : Option Bytes := do
+  let t1 ← LinPayload_getHeader_v2 pd_ pdsize_ this_
+  let m ← LinPayload_Header_setFlag m t1 a_mask a_value
+  pure m
+
+/-- `ASAM::CMP::LinPayload::setFlags` (line 85) -/
+def LinPayload_setFlags (m : Bytes) (pd_ pdsize_ : Nat) (this_ : Nat) (a_flags : Nat) : Option Bytes := do
+  let t1 ← LinPayload_getHeader_v2 pd_ pdsize_ this_
+  let m ← LinPayload_Header_setFlags m t1 a_flags
+  pure m
+
+/-- `ASAM::CMP::LinPayload::setLinId` (line 105) -/
+def LinPayload_setLinId (m : Bytes) (pd_ pdsize_ : Nat) (this_ : Nat) (a_id : Nat) : Option Bytes := do
+  let t1 ← LinPayload_getHeader_v2 pd_ pdsize_ this_
+  let m ← LinPayload_Header_setLinId m t1 a_id
+  pure m
+
+/-- `ASAM::CMP::LinPayload::setParityBits` (line 115) -/
+def LinPayload_setParityBits (m : Bytes) (pd_ pdsize_ : Nat) (this_ : Nat) (a_parity : Nat) : Option Bytes := do
+  let t1 ← LinPayload_getHeader_v2 pd_ pdsize_ this_
+  let m ← LinPayload_Header_setParityBits m t1 a_parity
+  pure m
 
 /-- `ASAM::CMP::MessageHeader::getCommonFlag` (line 46) -/
 def MessageHeader_getCommonFlag (m : Bytes) (this_ : Nat) (a_mask : Nat) : Option Bool := do
@@ -1083,6 +1721,10 @@ def Payload_getMessageType (m : Bytes) (this_ : Nat) : Option Nat := do
   let t1 ← PayloadType_getMessageType m (this_ + 32)
   pure t1
 
+/-- `ASAM::CMP::Payload::getRawPayload` (line 76) -/
+def Payload_getRawPayload (pd_ pdsize_ : Nat) (this_ : Nat) : Option Nat := do
+  pure pd_
+
 /-- `ASAM::CMP::PayloadType::getRawPayloadType` (line 94) -/
 def PayloadType_getRawPayloadType (m : Bytes) (this_ : Nat) : Option Nat := do
   let t1 ← rd m this_ 4
@@ -1176,6 +1818,45 @@ def TECMP_CanPayload_Header_setArbId (m : Bytes) (this_ : Nat) (a_newArbId : Nat
 def TECMP_CanPayload_Header_setDlc (m : Bytes) (this_ : Nat) (a_newDlc : Nat) : Option Bytes := do
   let t1 ← swapEndian_u8 a_newDlc
   let m ← wr m (this_ + 4) 1 t1
+  pure m
+
+/-- `TECMP::CanPayload::getHeader` (line 65) -/
+def TECMP_CanPayload_getHeader_v (pd_ pdsize_ : Nat) (this_ : Nat) : Option Nat := do
+  pure pd_
+
+/-- `TECMP::CanPayload::getArbId` (line 27) -/
+def TECMP_CanPayload_getArbId (m : Bytes) (pd_ pdsize_ : Nat) (this_ : Nat) : Option Nat := do
+  let t1 ← TECMP_CanPayload_getHeader_v pd_ pdsize_ this_
+  let t2 ← TECMP_CanPayload_Header_getArbId m t1
+  pure t2
+
+/-- `TECMP::CanPayload::getData` (line 57) -/
+def TECMP_CanPayload_getData (pd_ pdsize_ : Nat) (this_ : Nat) : Option Nat := do
+  if (decide (pdsize_ > 5)) then
+    pure (pd_ + 5)
+  else
+    pure 0
+
+/-- `TECMP::CanPayload::getDlc` (line 37) -/
+def TECMP_CanPayload_getDlc (m : Bytes) (pd_ pdsize_ : Nat) (this_ : Nat) : Option Nat := do
+  let t1 ← TECMP_CanPayload_getHeader_v pd_ pdsize_ this_
+  let t2 ← TECMP_CanPayload_Header_getDlc m t1
+  pure t2
+
+/-- `TECMP::CanPayload::getHeader` (line 70) -/
+def TECMP_CanPayload_getHeader_v2 (pd_ pdsize_ : Nat) (this_ : Nat) : Option Nat := do
+  pure pd_
+
+/-- `TECMP::CanPayload::setArbId` (line 32) -/
+def TECMP_CanPayload_setArbId (m : Bytes) (pd_ pdsize_ : Nat) (this_ : Nat) (a_newArbId : Nat) : Option Bytes := do
+  let t1 ← TECMP_CanPayload_getHeader_v2 pd_ pdsize_ this_
+  let m ← TECMP_CanPayload_Header_setArbId m t1 a_newArbId
+  pure m
+
+/-- `TECMP::CanPayload::setDlc` (line 42) -/
+def TECMP_CanPayload_setDlc (m : Bytes) (pd_ pdsize_ : Nat) (this_ : Nat) (a_newDlc : Nat) : Option Bytes := do
+  let t1 ← TECMP_CanPayload_getHeader_v2 pd_ pdsize_ this_
+  let m ← TECMP_CanPayload_Header_setDlc m t1 a_newDlc
   pure m
 
 /-- `TECMP::CaptureModulePayload::Header::getBufferFill` (line 335) -/
@@ -1404,6 +2085,242 @@ def TECMP_CaptureModulePayload_Header_setVoltageFraction (m : Bytes) (this_ : Na
 def TECMP_CaptureModulePayload_Header_setVoltageWhole (m : Bytes) (this_ : Nat) (a_newValue : Nat) : Option Bytes := do
   let t1 ← swapEndian_u8 a_newValue
   let m ← wr m ((this_ + 12) + 20) 1 t1
+  pure m
+
+/-- `TECMP::CaptureModulePayload::getHeader` (line 215) -/
+def TECMP_CaptureModulePayload_getHeader_v (pd_ pdsize_ : Nat) (this_ : Nat) : Option Nat := do
+  pure pd_
+
+/-- `TECMP::CaptureModulePayload::getBufferFill` (line 136) -/
+def TECMP_CaptureModulePayload_getBufferFill (m : Bytes) (pd_ pdsize_ : Nat) (this_ : Nat) : Option Nat := do
+  let t1 ← TECMP_CaptureModulePayload_getHeader_v pd_ pdsize_ this_
+  let t2 ← TECMP_CaptureModulePayload_Header_getBufferFill m t1
+  pure t2
+
+/-- `TECMP::CaptureModulePayload::getBufferSize` (line 156) -/
+def TECMP_CaptureModulePayload_getBufferSize (m : Bytes) (pd_ pdsize_ : Nat) (this_ : Nat) : Option Nat := do
+  let t1 ← TECMP_CaptureModulePayload_getHeader_v pd_ pdsize_ this_
+  let t2 ← TECMP_CaptureModulePayload_Header_getBufferSize m t1
+  pure t2
+
+/-- `TECMP::CaptureModulePayload::getChassisTemp` (line 176) -/
+def TECMP_CaptureModulePayload_getChassisTemp (m : Bytes) (pd_ pdsize_ : Nat) (this_ : Nat) : Option Nat := do
+  let t1 ← TECMP_CaptureModulePayload_getHeader_v pd_ pdsize_ this_
+  let t2 ← TECMP_CaptureModulePayload_Header_getChassisTemp m t1
+  pure t2
+
+/-- `TECMP::CaptureModulePayload::getDeviceId` (line 46) -/
+def TECMP_CaptureModulePayload_getDeviceId (m : Bytes) (pd_ pdsize_ : Nat) (this_ : Nat) : Option Nat := do
+  let t1 ← TECMP_CaptureModulePayload_getHeader_v pd_ pdsize_ this_
+  let t2 ← TECMP_CaptureModulePayload_Header_getDeviceId m t1
+  pure t2
+
+/-- `TECMP::CaptureModulePayload::getDeviceType` (line 26) -/
+def TECMP_CaptureModulePayload_getDeviceType (m : Bytes) (pd_ pdsize_ : Nat) (this_ : Nat) : Option Nat := do
+  let t1 ← TECMP_CaptureModulePayload_getHeader_v pd_ pdsize_ this_
+  let t2 ← TECMP_CaptureModulePayload_Header_getDeviceType m t1
+  pure t2
+
+/-- `TECMP::CaptureModulePayload::getDeviceVersion` (line 16) -/
+def TECMP_CaptureModulePayload_getDeviceVersion (m : Bytes) (pd_ pdsize_ : Nat) (this_ : Nat) : Option Nat := do
+  let t1 ← TECMP_CaptureModulePayload_getHeader_v pd_ pdsize_ this_
+  let t2 ← TECMP_CaptureModulePayload_Header_getDeviceVersion m t1
+  pure t2
+
+/-- `TECMP::CaptureModulePayload::getHeader` (line 219) -/
+def TECMP_CaptureModulePayload_getHeader_v2 (pd_ pdsize_ : Nat) (this_ : Nat) : Option Nat := do
+  pure pd_
+
+/-- `TECMP::CaptureModulePayload::getHwVersionMajor` (line 96) -/
+def TECMP_CaptureModulePayload_getHwVersionMajor (m : Bytes) (pd_ pdsize_ : Nat) (this_ : Nat) : Option Nat := do
+  let t1 ← TECMP_CaptureModulePayload_getHeader_v pd_ pdsize_ this_
+  let t2 ← TECMP_CaptureModulePayload_Header_getHwVersionMajor m t1
+  pure t2
+
+/-- `TECMP::CaptureModulePayload::getHwVersionMinor` (line 106) -/
+def TECMP_CaptureModulePayload_getHwVersionMinor (m : Bytes) (pd_ pdsize_ : Nat) (this_ : Nat) : Option Nat := do
+  let t1 ← TECMP_CaptureModulePayload_getHeader_v pd_ pdsize_ this_
+  let t2 ← TECMP_CaptureModulePayload_Header_getHwVersionMinor m t1
+  pure t2
+
+/-- `TECMP::CaptureModulePayload::getIsBufferOverflow` (line 146) -/
+def TECMP_CaptureModulePayload_getIsBufferOverflow (m : Bytes) (pd_ pdsize_ : Nat) (this_ : Nat) : Option Nat := do
+  let t1 ← TECMP_CaptureModulePayload_getHeader_v pd_ pdsize_ this_
+  let t2 ← TECMP_CaptureModulePayload_Header_getIsBufferOverflow m t1
+  pure t2
+
+/-- `TECMP::CaptureModulePayload::getLifecycle` (line 166) -/
+def TECMP_CaptureModulePayload_getLifecycle (m : Bytes) (pd_ pdsize_ : Nat) (this_ : Nat) : Option Nat := do
+  let t1 ← TECMP_CaptureModulePayload_getHeader_v pd_ pdsize_ this_
+  let t2 ← TECMP_CaptureModulePayload_Header_getLifecycle m t1
+  pure t2
+
+/-- `TECMP::CaptureModulePayload::getSerialNumber` (line 56) -/
+def TECMP_CaptureModulePayload_getSerialNumber (m : Bytes) (pd_ pdsize_ : Nat) (this_ : Nat) : Option Nat := do
+  let t1 ← TECMP_CaptureModulePayload_getHeader_v pd_ pdsize_ this_
+  let t2 ← TECMP_CaptureModulePayload_Header_getSerialNumber m t1
+  pure t2
+
+/-- `TECMP::CaptureModulePayload::getSilliconTemp` (line 186) -/
+def TECMP_CaptureModulePayload_getSilliconTemp (m : Bytes) (pd_ pdsize_ : Nat) (this_ : Nat) : Option Nat := do
+  let t1 ← TECMP_CaptureModulePayload_getHeader_v pd_ pdsize_ this_
+  let t2 ← TECMP_CaptureModulePayload_Header_getSilliconTemp m t1
+  pure t2
+
+/-- `TECMP::CaptureModulePayload::getSwVersionMajor` (line 66) -/
+def TECMP_CaptureModulePayload_getSwVersionMajor (m : Bytes) (pd_ pdsize_ : Nat) (this_ : Nat) : Option Nat := do
+  let t1 ← TECMP_CaptureModulePayload_getHeader_v pd_ pdsize_ this_
+  let t2 ← TECMP_CaptureModulePayload_Header_getSwVersionMajor m t1
+  pure t2
+
+/-- `TECMP::CaptureModulePayload::getSwVersionMinor` (line 76) -/
+def TECMP_CaptureModulePayload_getSwVersionMinor (m : Bytes) (pd_ pdsize_ : Nat) (this_ : Nat) : Option Nat := do
+  let t1 ← TECMP_CaptureModulePayload_getHeader_v pd_ pdsize_ this_
+  let t2 ← TECMP_CaptureModulePayload_Header_getSwVersionMinor m t1
+  pure t2
+
+/-- `TECMP::CaptureModulePayload::getSwVersionPatch` (line 86) -/
+def TECMP_CaptureModulePayload_getSwVersionPatch (m : Bytes) (pd_ pdsize_ : Nat) (this_ : Nat) : Option Nat := do
+  let t1 ← TECMP_CaptureModulePayload_getHeader_v pd_ pdsize_ this_
+  let t2 ← TECMP_CaptureModulePayload_Header_getSwVersionPatch m t1
+  pure t2
+
+/-- `TECMP::CaptureModulePayload::getVendorDataLength` (line 36) -/
+def TECMP_CaptureModulePayload_getVendorDataLength (m : Bytes) (pd_ pdsize_ : Nat) (this_ : Nat) : Option Nat := do
+  let t1 ← TECMP_CaptureModulePayload_getHeader_v pd_ pdsize_ this_
+  let t2 ← TECMP_CaptureModulePayload_Header_getVendorDataLength m t1
+  pure t2
+
+/-- `TECMP::CaptureModulePayload::getVendorId` (line 6) -/
+def TECMP_CaptureModulePayload_getVendorId (m : Bytes) (pd_ pdsize_ : Nat) (this_ : Nat) : Option Nat := do
+  let t1 ← TECMP_CaptureModulePayload_getHeader_v pd_ pdsize_ this_
+  let t2 ← TECMP_CaptureModulePayload_Header_getVendorId m t1
+  pure t2
+
+/-- `TECMP::CaptureModulePayload::getVoltageFraction` (line 126) -/
+def TECMP_CaptureModulePayload_getVoltageFraction (m : Bytes) (pd_ pdsize_ : Nat) (this_ : Nat) : Option Nat := do
+  let t1 ← TECMP_CaptureModulePayload_getHeader_v pd_ pdsize_ this_
+  let t2 ← TECMP_CaptureModulePayload_Header_getVoltageFraction m t1
+  pure t2
+
+/-- `TECMP::CaptureModulePayload::getVoltageWhole` (line 116) -/
+def TECMP_CaptureModulePayload_getVoltageWhole (m : Bytes) (pd_ pdsize_ : Nat) (this_ : Nat) : Option Nat := do
+  let t1 ← TECMP_CaptureModulePayload_getHeader_v pd_ pdsize_ this_
+  let t2 ← TECMP_CaptureModulePayload_Header_getVoltageWhole m t1
+  pure t2
+
+/-- `TECMP::CaptureModulePayload::setBufferFill` (line 141) -/
+def TECMP_CaptureModulePayload_setBufferFill (m : Bytes) (pd_ pdsize_ : Nat) (this_ : Nat) (a_val : Nat) : Option Bytes := do
+  let t1 ← TECMP_CaptureModulePayload_getHeader_v2 pd_ pdsize_ this_
+  let m ← TECMP_CaptureModulePayload_Header_setBufferFill m t1 a_val
+  pure m
+
+/-- `TECMP::CaptureModulePayload::setBufferSize` (line 161) -/
+def TECMP_CaptureModulePayload_setBufferSize (m : Bytes) (pd_ pdsize_ : Nat) (this_ : Nat) (a_val : Nat) : Option Bytes := do
+  let t1 ← TECMP_CaptureModulePayload_getHeader_v2 pd_ pdsize_ this_
+  let m ← TECMP_CaptureModulePayload_Header_setBufferSize m t1 a_val
+  pure m
+
+/-- `TECMP::CaptureModulePayload::setChassisTemp` (line 181) -/
+def TECMP_CaptureModulePayload_setChassisTemp (m : Bytes) (pd_ pdsize_ : Nat) (this_ : Nat) (a_val : Nat) : Option Bytes := do
+  let t1 ← TECMP_CaptureModulePayload_getHeader_v2 pd_ pdsize_ this_
+  let m ← TECMP_CaptureModulePayload_Header_setChassisTemp m t1 a_val
+  pure m
+
+/-- `TECMP::CaptureModulePayload::setDeviceId` (line 51) -/
+def TECMP_CaptureModulePayload_setDeviceId (m : Bytes) (pd_ pdsize_ : Nat) (this_ : Nat) (a_newDeviceId : Nat) : Option Bytes := do
+  let t1 ← TECMP_CaptureModulePayload_getHeader_v2 pd_ pdsize_ this_
+  let m ← TECMP_CaptureModulePayload_Header_setDeviceId m t1 a_newDeviceId
+  pure m
+
+/-- `TECMP::CaptureModulePayload::setDeviceType` (line 31) -/
+def TECMP_CaptureModulePayload_setDeviceType (m : Bytes) (pd_ pdsize_ : Nat) (this_ : Nat) (a_newDeviceType : Nat) : Option Bytes := do
+  let t1 ← TECMP_CaptureModulePayload_getHeader_v2 pd_ pdsize_ this_
+  let m ← TECMP_CaptureModulePayload_Header_setDeviceType m t1 a_newDeviceType
+  pure m
+
+/-- `TECMP::CaptureModulePayload::setDeviceVersion` (line 21) -/
+def TECMP_CaptureModulePayload_setDeviceVersion (m : Bytes) (pd_ pdsize_ : Nat) (this_ : Nat) (a_newDeviceVersion : Nat) : Option Bytes := do
+  let t1 ← TECMP_CaptureModulePayload_getHeader_v2 pd_ pdsize_ this_
+  let m ← TECMP_CaptureModulePayload_Header_setDeviceVersion m t1 a_newDeviceVersion
+  pure m
+
+/-- `TECMP::CaptureModulePayload::setHwVersionMajor` (line 101) -/
+def TECMP_CaptureModulePayload_setHwVersionMajor (m : Bytes) (pd_ pdsize_ : Nat) (this_ : Nat) (a_newValue : Nat) : Option Bytes := do
+  let t1 ← TECMP_CaptureModulePayload_getHeader_v2 pd_ pdsize_ this_
+  let m ← TECMP_CaptureModulePayload_Header_setHwVersionMajor m t1 a_newValue
+  pure m
+
+/-- `TECMP::CaptureModulePayload::setHwVersionMinor` (line 111) -/
+def TECMP_CaptureModulePayload_setHwVersionMinor (m : Bytes) (pd_ pdsize_ : Nat) (this_ : Nat) (a_newValue : Nat) : Option Bytes := do
+  let t1 ← TECMP_CaptureModulePayload_getHeader_v2 pd_ pdsize_ this_
+  let m ← TECMP_CaptureModulePayload_Header_setHwVersionMinor m t1 a_newValue
+  pure m
+
+/-- `TECMP::CaptureModulePayload::setIsBufferOverflow` (line 151) -/
+def TECMP_CaptureModulePayload_setIsBufferOverflow (m : Bytes) (pd_ pdsize_ : Nat) (this_ : Nat) (a_val : Nat) : Option Bytes := do
+  let t1 ← TECMP_CaptureModulePayload_getHeader_v2 pd_ pdsize_ this_
+  let m ← TECMP_CaptureModulePayload_Header_setIsBufferOverflow m t1 a_val
+  pure m
+
+/-- `TECMP::CaptureModulePayload::setLifecycle` (line 171) -/
+def TECMP_CaptureModulePayload_setLifecycle (m : Bytes) (pd_ pdsize_ : Nat) (this_ : Nat) (a_val : Nat) : Option Bytes := do
+  let t1 ← TECMP_CaptureModulePayload_getHeader_v2 pd_ pdsize_ this_
+  let m ← TECMP_CaptureModulePayload_Header_setLifecycle m t1 a_val
+  pure m
+
+/-- `TECMP::CaptureModulePayload::setSerialNumber` (line 61) -/
+def TECMP_CaptureModulePayload_setSerialNumber (m : Bytes) (pd_ pdsize_ : Nat) (this_ : Nat) (a_newSerialNumber : Nat) : Option Bytes := do
+  let t1 ← TECMP_CaptureModulePayload_getHeader_v2 pd_ pdsize_ this_
+  let m ← TECMP_CaptureModulePayload_Header_setSerialNumber m t1 a_newSerialNumber
+  pure m
+
+/-- `TECMP::CaptureModulePayload::setSilliconTemp` (line 191) -/
+def TECMP_CaptureModulePayload_setSilliconTemp (m : Bytes) (pd_ pdsize_ : Nat) (this_ : Nat) (a_val : Nat) : Option Bytes := do
+  let t1 ← TECMP_CaptureModulePayload_getHeader_v2 pd_ pdsize_ this_
+  let m ← TECMP_CaptureModulePayload_Header_setSilliconTemp m t1 a_val
+  pure m
+
+/-- `TECMP::CaptureModulePayload::setSwVersionMajor` (line 71) -/
+def TECMP_CaptureModulePayload_setSwVersionMajor (m : Bytes) (pd_ pdsize_ : Nat) (this_ : Nat) (a_newValue : Nat) : Option Bytes := do
+  let t1 ← TECMP_CaptureModulePayload_getHeader_v2 pd_ pdsize_ this_
+  let m ← TECMP_CaptureModulePayload_Header_setSwVersionMajor m t1 a_newValue
+  pure m
+
+/-- `TECMP::CaptureModulePayload::setSwVersionMinor` (line 81) -/
+def TECMP_CaptureModulePayload_setSwVersionMinor (m : Bytes) (pd_ pdsize_ : Nat) (this_ : Nat) (a_newValue : Nat) : Option Bytes := do
+  let t1 ← TECMP_CaptureModulePayload_getHeader_v2 pd_ pdsize_ this_
+  let m ← TECMP_CaptureModulePayload_Header_setSwVersionMinor m t1 a_newValue
+  pure m
+
+/-- `TECMP::CaptureModulePayload::setSwVersionPatch` (line 91) -/
+def TECMP_CaptureModulePayload_setSwVersionPatch (m : Bytes) (pd_ pdsize_ : Nat) (this_ : Nat) (a_newValue : Nat) : Option Bytes := do
+  let t1 ← TECMP_CaptureModulePayload_getHeader_v2 pd_ pdsize_ this_
+  let m ← TECMP_CaptureModulePayload_Header_setSwVersionPatch m t1 a_newValue
+  pure m
+
+/-- `TECMP::CaptureModulePayload::setVendorDataLength` (line 41) -/
+def TECMP_CaptureModulePayload_setVendorDataLength (m : Bytes) (pd_ pdsize_ : Nat) (this_ : Nat) (a_newVendorDataLength : Nat) : Option Bytes := do
+  let t1 ← TECMP_CaptureModulePayload_getHeader_v2 pd_ pdsize_ this_
+  let m ← TECMP_CaptureModulePayload_Header_setVendorDataLength m t1 a_newVendorDataLength
+  pure m
+
+/-- `TECMP::CaptureModulePayload::setVendorId` (line 11) -/
+def TECMP_CaptureModulePayload_setVendorId (m : Bytes) (pd_ pdsize_ : Nat) (this_ : Nat) (a_newId : Nat) : Option Bytes := do
+  let t1 ← TECMP_CaptureModulePayload_getHeader_v2 pd_ pdsize_ this_
+  let m ← TECMP_CaptureModulePayload_Header_setVendorId m t1 a_newId
+  pure m
+
+/-- `TECMP::CaptureModulePayload::setVoltageFraction` (line 131) -/
+def TECMP_CaptureModulePayload_setVoltageFraction (m : Bytes) (pd_ pdsize_ : Nat) (this_ : Nat) (a_newValue : Nat) : Option Bytes := do
+  let t1 ← TECMP_CaptureModulePayload_getHeader_v2 pd_ pdsize_ this_
+  let m ← TECMP_CaptureModulePayload_Header_setVoltageFraction m t1 a_newValue
+  pure m
+
+/-- `TECMP::CaptureModulePayload::setVoltageWhole` (line 121) -/
+def TECMP_CaptureModulePayload_setVoltageWhole (m : Bytes) (pd_ pdsize_ : Nat) (this_ : Nat) (a_newValue : Nat) : Option Bytes := do
+  let t1 ← TECMP_CaptureModulePayload_getHeader_v2 pd_ pdsize_ this_
+  let m ← TECMP_CaptureModulePayload_Header_setVoltageWhole m t1 a_newValue
   pure m
 
 /-- `TECMP::CmpHeader::getDataType` (line 47) -/
@@ -1665,6 +2582,158 @@ def TECMP_InterfacePayload_Header_setVendorId (m : Bytes) (this_ : Nat) (a_value
   let m ← wr m this_ 1 t1
   pure m
 
+/-- `TECMP::InterfacePayload::getHeader` (line 257) -/
+def TECMP_InterfacePayload_getHeader_v (pd_ pdsize_ : Nat) (this_ : Nat) : Option Nat := do
+  pure pd_
+
+/-- `TECMP::InterfacePayload::getCmType` (line 157) -/
+def TECMP_InterfacePayload_getCmType (m : Bytes) (pd_ pdsize_ : Nat) (this_ : Nat) : Option Nat := do
+  let t1 ← TECMP_InterfacePayload_getHeader_v pd_ pdsize_ this_
+  let t2 ← TECMP_InterfacePayload_Header_getCmType m t1
+  pure t2
+
+/-- `TECMP::InterfacePayload::getCmVersion` (line 147) -/
+def TECMP_InterfacePayload_getCmVersion (m : Bytes) (pd_ pdsize_ : Nat) (this_ : Nat) : Option Nat := do
+  let t1 ← TECMP_InterfacePayload_getHeader_v pd_ pdsize_ this_
+  let t2 ← TECMP_InterfacePayload_Header_getCmVersion m t1
+  pure t2
+
+/-- `TECMP::InterfacePayload::getDeviceId` (line 177) -/
+def TECMP_InterfacePayload_getDeviceId (m : Bytes) (pd_ pdsize_ : Nat) (this_ : Nat) : Option Nat := do
+  let t1 ← TECMP_InterfacePayload_getHeader_v pd_ pdsize_ this_
+  let t2 ← TECMP_InterfacePayload_Header_getDeviceId m t1
+  pure t2
+
+/-- `TECMP::InterfacePayload::getErrorsTotal` (line 217) -/
+def TECMP_InterfacePayload_getErrorsTotal (m : Bytes) (pd_ pdsize_ : Nat) (this_ : Nat) : Option Nat := do
+  let t1 ← TECMP_InterfacePayload_getHeader_v pd_ pdsize_ this_
+  let t2 ← TECMP_InterfacePayload_Header_getErrorsTotal m t1
+  pure t2
+
+/-- `TECMP::InterfacePayload::getHeader` (line 262) -/
+def TECMP_InterfacePayload_getHeader_v2 (pd_ pdsize_ : Nat) (this_ : Nat) : Option Nat := do
+  pure pd_
+
+/-- `TECMP::InterfacePayload::getInterfaceId` (line 197) -/
+def TECMP_InterfacePayload_getInterfaceId (m : Bytes) (pd_ pdsize_ : Nat) (this_ : Nat) : Option Nat := do
+  let t1 ← TECMP_InterfacePayload_getHeader_v pd_ pdsize_ this_
+  let t2 ← TECMP_InterfacePayload_Header_getInterfaceId m t1
+  pure t2
+
+/-- `TECMP::InterfacePayload::getMessagesTotal` (line 207) -/
+def TECMP_InterfacePayload_getMessagesTotal (m : Bytes) (pd_ pdsize_ : Nat) (this_ : Nat) : Option Nat := do
+  let t1 ← TECMP_InterfacePayload_getHeader_v pd_ pdsize_ this_
+  let t2 ← TECMP_InterfacePayload_Header_getMessagesTotal m t1
+  pure t2
+
+/-- `TECMP::InterfacePayload::getSerialNumber` (line 187) -/
+def TECMP_InterfacePayload_getSerialNumber (m : Bytes) (pd_ pdsize_ : Nat) (this_ : Nat) : Option Nat := do
+  let t1 ← TECMP_InterfacePayload_getHeader_v pd_ pdsize_ this_
+  let t2 ← TECMP_InterfacePayload_Header_getSerialNumber m t1
+  pure t2
+
+/-- `TECMP::InterfacePayload::getVendorDataLength` (line 167) -/
+def TECMP_InterfacePayload_getVendorDataLength (m : Bytes) (pd_ pdsize_ : Nat) (this_ : Nat) : Option Nat := do
+  let t1 ← TECMP_InterfacePayload_getHeader_v pd_ pdsize_ this_
+  let t2 ← TECMP_InterfacePayload_Header_getVendorDataLength m t1
+  pure t2
+
+/-- `TECMP::InterfacePayload::getVendorDataLinkQuality` (line 237) -/
+def TECMP_InterfacePayload_getVendorDataLinkQuality (m : Bytes) (pd_ pdsize_ : Nat) (this_ : Nat) : Option Nat := do
+  let t1 ← TECMP_InterfacePayload_getHeader_v pd_ pdsize_ this_
+  let t2 ← TECMP_InterfacePayload_Header_getVendorDataLinkQuality m t1
+  pure t2
+
+/-- `TECMP::InterfacePayload::getVendorDataLinkStatus` (line 227) -/
+def TECMP_InterfacePayload_getVendorDataLinkStatus (m : Bytes) (pd_ pdsize_ : Nat) (this_ : Nat) : Option Nat := do
+  let t1 ← TECMP_InterfacePayload_getHeader_v pd_ pdsize_ this_
+  let t2 ← TECMP_InterfacePayload_Header_getVendorDataLinkStatus m t1
+  pure t2
+
+/-- `TECMP::InterfacePayload::getVendorDataLinkupTime` (line 247) -/
+def TECMP_InterfacePayload_getVendorDataLinkupTime (m : Bytes) (pd_ pdsize_ : Nat) (this_ : Nat) : Option Nat := do
+  let t1 ← TECMP_InterfacePayload_getHeader_v pd_ pdsize_ this_
+  let t2 ← TECMP_InterfacePayload_Header_getVendorDataLinkupTime m t1
+  pure t2
+
+/-- `TECMP::InterfacePayload::getVendorId` (line 137) -/
+def TECMP_InterfacePayload_getVendorId (m : Bytes) (pd_ pdsize_ : Nat) (this_ : Nat) : Option Nat := do
+  let t1 ← TECMP_InterfacePayload_getHeader_v pd_ pdsize_ this_
+  let t2 ← TECMP_InterfacePayload_Header_getVendorId m t1
+  pure t2
+
+/-- `TECMP::InterfacePayload::setCmType` (line 162) -/
+def TECMP_InterfacePayload_setCmType (m : Bytes) (pd_ pdsize_ : Nat) (this_ : Nat) (a_value : Nat) : Option Bytes := do
+  let t1 ← TECMP_InterfacePayload_getHeader_v2 pd_ pdsize_ this_
+  let m ← TECMP_InterfacePayload_Header_setCmType m t1 a_value
+  pure m
+
+/-- `TECMP::InterfacePayload::setCmVersion` (line 152) -/
+def TECMP_InterfacePayload_setCmVersion (m : Bytes) (pd_ pdsize_ : Nat) (this_ : Nat) (a_value : Nat) : Option Bytes := do
+  let t1 ← TECMP_InterfacePayload_getHeader_v2 pd_ pdsize_ this_
+  let m ← TECMP_InterfacePayload_Header_setCmVersion m t1 a_value
+  pure m
+
+/-- `TECMP::InterfacePayload::setDeviceId` (line 182) -/
+def TECMP_InterfacePayload_setDeviceId (m : Bytes) (pd_ pdsize_ : Nat) (this_ : Nat) (a_value : Nat) : Option Bytes := do
+  let t1 ← TECMP_InterfacePayload_getHeader_v2 pd_ pdsize_ this_
+  let m ← TECMP_InterfacePayload_Header_setDeviceId m t1 a_value
+  pure m
+
+/-- `TECMP::InterfacePayload::setErrorsTotal` (line 222) -/
+def TECMP_InterfacePayload_setErrorsTotal (m : Bytes) (pd_ pdsize_ : Nat) (this_ : Nat) (a_value : Nat) : Option Bytes := do
+  let t1 ← TECMP_InterfacePayload_getHeader_v2 pd_ pdsize_ this_
+  let m ← TECMP_InterfacePayload_Header_setErrorsTotal m t1 a_value
+  pure m
+
+/-- `TECMP::InterfacePayload::setInterfaceId` (line 202) -/
+def TECMP_InterfacePayload_setInterfaceId (m : Bytes) (pd_ pdsize_ : Nat) (this_ : Nat) (a_value : Nat) : Option Bytes := do
+  let t1 ← TECMP_InterfacePayload_getHeader_v2 pd_ pdsize_ this_
+  let m ← TECMP_InterfacePayload_Header_setInterfaceId m t1 a_value
+  pure m
+
+/-- `TECMP::InterfacePayload::setMessagesTotal` (line 212) -/
+def TECMP_InterfacePayload_setMessagesTotal (m : Bytes) (pd_ pdsize_ : Nat) (this_ : Nat) (a_value : Nat) : Option Bytes := do
+  let t1 ← TECMP_InterfacePayload_getHeader_v2 pd_ pdsize_ this_
+  let m ← TECMP_InterfacePayload_Header_setMessagesTotal m t1 a_value
+  pure m
+
+/-- `TECMP::InterfacePayload::setSerialNumber` (line 192) -/
+def TECMP_InterfacePayload_setSerialNumber (m : Bytes) (pd_ pdsize_ : Nat) (this_ : Nat) (a_value : Nat) : Option Bytes := do
+  let t1 ← TECMP_InterfacePayload_getHeader_v2 pd_ pdsize_ this_
+  let m ← TECMP_InterfacePayload_Header_setSerialNumber m t1 a_value
+  pure m
+
+/-- `TECMP::InterfacePayload::setVendorDataLength` (line 172) -/
+def TECMP_InterfacePayload_setVendorDataLength (m : Bytes) (pd_ pdsize_ : Nat) (this_ : Nat) (a_value : Nat) : Option Bytes := do
+  let t1 ← TECMP_InterfacePayload_getHeader_v2 pd_ pdsize_ this_
+  let m ← TECMP_InterfacePayload_Header_setVendorDataLength m t1 a_value
+  pure m
+
+/-- `TECMP::InterfacePayload::setVendorDataLinkQuality` (line 242) -/
+def TECMP_InterfacePayload_setVendorDataLinkQuality (m : Bytes) (pd_ pdsize_ : Nat) (this_ : Nat) (a_value : Nat) : Option Bytes := do
+  let t1 ← TECMP_InterfacePayload_getHeader_v2 pd_ pdsize_ this_
+  let m ← TECMP_InterfacePayload_Header_setVendorDataLinkQuality m t1 a_value
+  pure m
+
+/-- `TECMP::InterfacePayload::setVendorDataLinkStatus` (line 232) -/
+def TECMP_InterfacePayload_setVendorDataLinkStatus (m : Bytes) (pd_ pdsize_ : Nat) (this_ : Nat) (a_value : Nat) : Option Bytes := do
+  let t1 ← TECMP_InterfacePayload_getHeader_v2 pd_ pdsize_ this_
+  let m ← TECMP_InterfacePayload_Header_setVendorDataLinkStatus m t1 a_value
+  pure m
+
+/-- `TECMP::InterfacePayload::setVendorDataLinkupTime` (line 252) -/
+def TECMP_InterfacePayload_setVendorDataLinkupTime (m : Bytes) (pd_ pdsize_ : Nat) (this_ : Nat) (a_value : Nat) : Option Bytes := do
+  let t1 ← TECMP_InterfacePayload_getHeader_v2 pd_ pdsize_ this_
+  let m ← TECMP_InterfacePayload_Header_setVendorDataLinkupTime m t1 a_value
+  pure m
+
+/-- `TECMP::InterfacePayload::setVendorId` (line 142) -/
+def TECMP_InterfacePayload_setVendorId (m : Bytes) (pd_ pdsize_ : Nat) (this_ : Nat) (a_value : Nat) : Option Bytes := do
+  let t1 ← TECMP_InterfacePayload_getHeader_v2 pd_ pdsize_ this_
+  let m ← TECMP_InterfacePayload_Header_setVendorId m t1 a_value
+  pure m
+
 /-- `TECMP::LinPayload::Header::getDataLength` (line 14) -/
 def TECMP_LinPayload_Header_getDataLength (m : Bytes) (this_ : Nat) : Option Nat := do
   let t1 ← rd m (this_ + 1) 1
@@ -1689,6 +2758,59 @@ def TECMP_LinPayload_Header_setPid (m : Bytes) (this_ : Nat) (a_newPid : Nat) : 
   let m ← wr m this_ 1 t1
   pure m
 
+/-- `TECMP::LinPayload::getHeader` (line 61) -/
+def TECMP_LinPayload_getHeader_v (pd_ pdsize_ : Nat) (this_ : Nat) : Option Nat := do
+  pure pd_
+
+/-- `TECMP::LinPayload::getCrc` (line 55) -/
+def TECMP_LinPayload_getCrc (m : Bytes) (pd_ pdsize_ : Nat) (this_ : Nat) : Option Nat := do
+  let t1 ← TECMP_LinPayload_getHeader_v pd_ pdsize_ this_
+  let t2 ← TECMP_LinPayload_Header_getDataLength m t1
+  if (decide (pdsize_ ≤ (uadd 64 2 t2))) then
+    pure 0
+  else
+    let t3 ← TECMP_LinPayload_getHeader_v pd_ pdsize_ this_
+    let t4 ← TECMP_LinPayload_Header_getDataLength m t3
+    let t5 ← nonneg 32 t4
+    let t6 ← rd m ((pd_ + 2) + t5) 1
+    pure t6
+
+/-- `TECMP::LinPayload::getData` (line 46) -/
+def TECMP_LinPayload_getData (pd_ pdsize_ : Nat) (this_ : Nat) : Option Nat := do
+  pure (pd_ + 2)
+
+/-- `TECMP::LinPayload::getDataLength` (line 30) -/
+def TECMP_LinPayload_getDataLength (m : Bytes) (pd_ pdsize_ : Nat) (this_ : Nat) : Option Nat := do
+  let t1 ← TECMP_LinPayload_getHeader_v pd_ pdsize_ this_
+  let t2 ← TECMP_LinPayload_Header_getDataLength m t1
+  pure t2
+
+/-- `TECMP::LinPayload::getHeader` (line 65) -/
+def TECMP_LinPayload_getHeader_v2 (pd_ pdsize_ : Nat) (this_ : Nat) : Option Nat := do
+  pure pd_
+
+/-- `TECMP::LinPayload::getPid` (line 22) -/
+def TECMP_LinPayload_getPid (m : Bytes) (pd_ pdsize_ : Nat) (this_ : Nat) : Option Nat := do
+  let t1 ← TECMP_LinPayload_getHeader_v pd_ pdsize_ this_
+  let t2 ← TECMP_LinPayload_Header_getPid m t1
+  pure t2
+
+/-- `TECMP::LinPayload::setDataLength` (line 34) -/
+def TECMP_LinPayload_setDataLength (m : Bytes) (pd_ pdsize_ : Nat) (this_ : Nat) (a_newLength : Nat) : Option Bytes := do
+  let t1 ← TECMP_LinPayload_getHeader_v2 pd_ pdsize_ this_
+  let m ← TECMP_LinPayload_Header_setDataLength m t1 a_newLength
+  pure m
+
+/-- `TECMP::LinPayload::setPid` (line 26) -/
+def TECMP_LinPayload_setPid (m : Bytes) (pd_ pdsize_ : Nat) (this_ : Nat) (a_newPid : Nat) : Option Bytes := do
+  let t1 ← TECMP_LinPayload_getHeader_v2 pd_ pdsize_ this_
+  let m ← TECMP_LinPayload_Header_setPid m t1 a_newPid
+  pure m
+
+/-- `TECMP::Payload::getLength` (line 73) -/
+def TECMP_Payload_getLength (pd_ pdsize_ : Nat) (this_ : Nat) : Option Nat := do
+  pure pdsize_
+
 /-- `TECMP::PayloadType::getMessageType` (line 79) -/
 def TECMP_PayloadType_getMessageType (m : Bytes) (this_ : Nat) : Option Nat := do
   let t1 ← rd m this_ 4
@@ -1699,6 +2821,10 @@ def TECMP_PayloadType_getMessageType (m : Bytes) (this_ : Nat) : Option Nat := d
 def TECMP_Payload_getMessageType (m : Bytes) (this_ : Nat) : Option Nat := do
   let t1 ← TECMP_PayloadType_getMessageType m (this_ + 32)
   pure t1
+
+/-- `TECMP::Payload::getRawPayload` (line 78) -/
+def TECMP_Payload_getRawPayload (pd_ pdsize_ : Nat) (this_ : Nat) : Option Nat := do
+  pure pd_
 
 /-- `TECMP::PayloadType::getRawPayloadType` (line 90) -/
 def TECMP_PayloadType_getRawPayloadType (m : Bytes) (this_ : Nat) : Option Nat := do
@@ -1766,84 +2892,25 @@ def untranslated : List (String × String) := [
   ("ASAM::CMP::AnalogPayload::Header::setSampleInterval void (const float)", "type const float"),
   ("ASAM::CMP::AnalogPayload::Header::setSampleOffset void (const float)", "type const float"),
   ("ASAM::CMP::AnalogPayload::Header::setSampleScalar void (const float)", "type const float"),
-  ("ASAM::CMP::AnalogPayload::getData const uint8_t *() const", "cast kind UncheckedDerivedToBase"),
-  ("ASAM::CMP::AnalogPayload::getFlags uint16_t () const", "cast kind UncheckedDerivedToBase"),
-  ("ASAM::CMP::AnalogPayload::getHeader AnalogPayload::Header *()", "cast kind UncheckedDerivedToBase"),
-  ("ASAM::CMP::AnalogPayload::getHeader const AnalogPayload::Header *() const", "cast kind UncheckedDerivedToBase"),
-  ("ASAM::CMP::AnalogPayload::getSampleDt AnalogPayload::SampleDt () const", "cast kind UncheckedDerivedToBase"),
   ("ASAM::CMP::AnalogPayload::getSampleInterval float () const", "type float"),
   ("ASAM::CMP::AnalogPayload::getSampleOffset float () const", "type float"),
   ("ASAM::CMP::AnalogPayload::getSampleScalar float () const", "type float"),
-  ("ASAM::CMP::AnalogPayload::getSamplesCount size_t () const", "cast kind UncheckedDerivedToBase"),
-  ("ASAM::CMP::AnalogPayload::getUnit AnalogPayload::Unit () const", "cast kind UncheckedDerivedToBase"),
-  ("ASAM::CMP::AnalogPayload::setData void (const uint8_t *, const size_t)", "cast kind UncheckedDerivedToBase"),
-  ("ASAM::CMP::AnalogPayload::setFlags void (uint16_t)", "cast kind UncheckedDerivedToBase"),
-  ("ASAM::CMP::AnalogPayload::setSampleDt void (const ASAM::CMP::AnalogPayload::SampleDt)", "cast kind UncheckedDerivedToBase"),
+  ("ASAM::CMP::AnalogPayload::setData void (const uint8_t *, const size_t)", "no body for callee outside the library (std / libc)"),
   ("ASAM::CMP::AnalogPayload::setSampleInterval void (const float)", "type const float"),
   ("ASAM::CMP::AnalogPayload::setSampleOffset void (const float)", "type const float"),
   ("ASAM::CMP::AnalogPayload::setSampleScalar void (const float)", "type const float"),
-  ("ASAM::CMP::AnalogPayload::setUnit void (const ASAM::CMP::AnalogPayload::Unit)", "cast kind UncheckedDerivedToBase"),
-  ("ASAM::CMP::CanFdPayload::getCrc uint32_t () const", "cast kind UncheckedDerivedToBase"),
-  ("ASAM::CMP::CanFdPayload::getRrs bool () const", "cast kind UncheckedDerivedToBase"),
-  ("ASAM::CMP::CanFdPayload::getSbc uint8_t () const", "cast kind UncheckedDerivedToBase"),
-  ("ASAM::CMP::CanFdPayload::getSbcParity bool () const", "cast kind UncheckedDerivedToBase"),
-  ("ASAM::CMP::CanFdPayload::getSbcSupport bool () const", "cast kind UncheckedDerivedToBase"),
-  ("ASAM::CMP::CanFdPayload::setCrc void (const uint32_t)", "cast kind UncheckedDerivedToBase"),
-  ("ASAM::CMP::CanFdPayload::setRrs void (const bool)", "cast kind UncheckedDerivedToBase"),
-  ("ASAM::CMP::CanFdPayload::setSbc void (const uint8_t)", "cast kind UncheckedDerivedToBase"),
-  ("ASAM::CMP::CanFdPayload::setSbcParity void (const bool)", "cast kind UncheckedDerivedToBase"),
-  ("ASAM::CMP::CanFdPayload::setSbcSupport void (const bool)", "cast kind UncheckedDerivedToBase"),
-  ("ASAM::CMP::CanPayload::getCrc uint16_t () const", "cast kind UncheckedDerivedToBase"),
-  ("ASAM::CMP::CanPayload::getRtr bool () const", "cast kind UncheckedDerivedToBase"),
-  ("ASAM::CMP::CanPayload::setCrc void (const uint16_t)", "cast kind UncheckedDerivedToBase"),
-  ("ASAM::CMP::CanPayload::setRtr void (const bool)", "cast kind UncheckedDerivedToBase"),
-  ("ASAM::CMP::CanPayloadBase::getCrcSupport bool () const", "cast kind UncheckedDerivedToBase"),
-  ("ASAM::CMP::CanPayloadBase::getData const uint8_t *() const", "cast kind UncheckedDerivedToBase"),
-  ("ASAM::CMP::CanPayloadBase::getDataLength uint8_t () const", "cast kind UncheckedDerivedToBase"),
-  ("ASAM::CMP::CanPayloadBase::getDlc uint8_t () const", "cast kind UncheckedDerivedToBase"),
-  ("ASAM::CMP::CanPayloadBase::getErrorPosition uint16_t () const", "cast kind UncheckedDerivedToBase"),
-  ("ASAM::CMP::CanPayloadBase::getFlag bool (ASAM::CMP::CanPayloadBase::Flags) const", "cast kind UncheckedDerivedToBase"),
-  ("ASAM::CMP::CanPayloadBase::getFlags uint16_t () const", "cast kind UncheckedDerivedToBase"),
-  ("ASAM::CMP::CanPayloadBase::getHeader CanPayloadBase::Header *()", "cast kind UncheckedDerivedToBase"),
-  ("ASAM::CMP::CanPayloadBase::getHeader const CanPayloadBase::Header *() const", "cast kind UncheckedDerivedToBase"),
-  ("ASAM::CMP::CanPayloadBase::getId uint32_t () const", "cast kind UncheckedDerivedToBase"),
-  ("ASAM::CMP::CanPayloadBase::getIde bool () const", "cast kind UncheckedDerivedToBase"),
-  ("ASAM::CMP::CanPayloadBase::getRsvd bool () const", "cast kind UncheckedDerivedToBase"),
-  ("ASAM::CMP::CanPayloadBase::setCrcSupport void (const bool)", "cast kind UncheckedDerivedToBase"),
-  ("ASAM::CMP::CanPayloadBase::setData void (const uint8_t *, const uint8_t)", "cast kind UncheckedDerivedToBase"),
-  ("ASAM::CMP::CanPayloadBase::setErrorPosition void (const uint16_t)", "cast kind UncheckedDerivedToBase"),
-  ("ASAM::CMP::CanPayloadBase::setFlag void (ASAM::CMP::CanPayloadBase::Flags, bool)", "cast kind UncheckedDerivedToBase"),
-  ("ASAM::CMP::CanPayloadBase::setFlags void (const uint16_t)", "cast kind UncheckedDerivedToBase"),
-  ("ASAM::CMP::CanPayloadBase::setId void (const uint32_t)", "cast kind UncheckedDerivedToBase"),
-  ("ASAM::CMP::CanPayloadBase::setIde void (const bool)", "cast kind UncheckedDerivedToBase"),
-  ("ASAM::CMP::CanPayloadBase::setRsvd void (const bool)", "cast kind UncheckedDerivedToBase"),
+  ("ASAM::CMP::CanPayloadBase::setData void (const uint8_t *, const uint8_t)", "no body for callee outside the library (std / libc)"),
   ("ASAM::CMP::CaptureModulePayload::fillWithString uint8_t *(uint8_t *, const std::string_view)", "type const std::string_view"),
-  ("ASAM::CMP::CaptureModulePayload::getCurrentUtcOffset uint16_t () const", "cast kind UncheckedDerivedToBase"),
   ("ASAM::CMP::CaptureModulePayload::getDeviceDescription std::string_view () const", "type std::string_view"),
-  ("ASAM::CMP::CaptureModulePayload::getDomainNumber uint8_t () const", "cast kind UncheckedDerivedToBase"),
-  ("ASAM::CMP::CaptureModulePayload::getGmClockQuality uint32_t () const", "cast kind UncheckedDerivedToBase"),
-  ("ASAM::CMP::CaptureModulePayload::getGmIdentity uint64_t () const", "cast kind UncheckedDerivedToBase"),
-  ("ASAM::CMP::CaptureModulePayload::getGptpFlags uint8_t () const", "cast kind UncheckedDerivedToBase"),
   ("ASAM::CMP::CaptureModulePayload::getHardwareVersion std::string_view () const", "type std::string_view"),
-  ("ASAM::CMP::CaptureModulePayload::getHeader CaptureModulePayload::Header *()", "cast kind UncheckedDerivedToBase"),
-  ("ASAM::CMP::CaptureModulePayload::getHeader const CaptureModulePayload::Header *() const", "cast kind UncheckedDerivedToBase"),
   ("ASAM::CMP::CaptureModulePayload::getSerialNumber std::string_view () const", "type std::string_view"),
   ("ASAM::CMP::CaptureModulePayload::getSoftwareVersion std::string_view () const", "type std::string_view"),
-  ("ASAM::CMP::CaptureModulePayload::getTimeSource uint8_t () const", "cast kind UncheckedDerivedToBase"),
-  ("ASAM::CMP::CaptureModulePayload::getUptime uint64_t () const", "cast kind UncheckedDerivedToBase"),
   ("ASAM::CMP::CaptureModulePayload::getVendorData const uint8_t *() const", "type std::string_view"),
   ("ASAM::CMP::CaptureModulePayload::getVendorDataLength uint16_t () const", "type std::string_view"),
   ("ASAM::CMP::CaptureModulePayload::getVendorDataStringView std::string_view () const", "type std::string_view"),
   ("ASAM::CMP::CaptureModulePayload::initStringView const uint8_t *(const uint8_t *, std::string_view &)", "reference type std::string_view &"),
   ("ASAM::CMP::CaptureModulePayload::removeTrailingNulls std::string_view (std::string_view)", "type std::string_view"),
-  ("ASAM::CMP::CaptureModulePayload::setCurrentUtcOffset void (const uint16_t)", "cast kind UncheckedDerivedToBase"),
   ("ASAM::CMP::CaptureModulePayload::setData void (const std::string_view, const std::string_view, const std::string_view, const std::string_view, const std::vector<uint8_t> &)", "type const std::string_view"),
-  ("ASAM::CMP::CaptureModulePayload::setDomainNumber void (const uint8_t)", "cast kind UncheckedDerivedToBase"),
-  ("ASAM::CMP::CaptureModulePayload::setGmClockQuality void (const uint32_t)", "cast kind UncheckedDerivedToBase"),
-  ("ASAM::CMP::CaptureModulePayload::setGmIdentity void (const uint64_t)", "cast kind UncheckedDerivedToBase"),
-  ("ASAM::CMP::CaptureModulePayload::setGptpFlags void (const uint8_t)", "cast kind UncheckedDerivedToBase"),
-  ("ASAM::CMP::CaptureModulePayload::setTimeSource void (const uint8_t)", "cast kind UncheckedDerivedToBase"),
-  ("ASAM::CMP::CaptureModulePayload::setUptime void (const uint64_t)", "cast kind UncheckedDerivedToBase"),
   ("ASAM::CMP::Decoder::Endpoint::operator== bool (const ASAM::CMP::Decoder::Endpoint &) const", "reference type const ASAM::CMP::Decoder::Endpoint &"),
   ("ASAM::CMP::Decoder::EndpointHash::operator() std::size_t (const ASAM::CMP::Decoder::Endpoint &) const", "reference type const ASAM::CMP::Decoder::Endpoint &"),
   ("ASAM::CMP::Decoder::SegmentedPacket::addSegment bool (const uint8_t *, const size_t, const uint8_t, const CmpHeader::MessageType, const uint16_t)", "lvalue ImplicitCastExpr"),
@@ -1877,63 +2944,13 @@ def untranslated : List (String × String) := [
   ("ASAM::CMP::Encoder::setDeviceId void (uint16_t)", "no body for callee outside the library (std / libc)"),
   ("ASAM::CMP::Encoder::setMessageType void (const ASAM::CMP::Packet &)", "reference type const ASAM::CMP::Packet &"),
   ("ASAM::CMP::Encoder::setStreamId void (uint8_t)", "no body for callee outside the library (std / libc)"),
-  ("ASAM::CMP::EthernetPayload::getData const uint8_t *() const", "cast kind UncheckedDerivedToBase"),
-  ("ASAM::CMP::EthernetPayload::getDataLength uint16_t () const", "cast kind UncheckedDerivedToBase"),
-  ("ASAM::CMP::EthernetPayload::getFlag bool (ASAM::CMP::EthernetPayload::Flags) const", "cast kind UncheckedDerivedToBase"),
-  ("ASAM::CMP::EthernetPayload::getFlags uint16_t () const", "cast kind UncheckedDerivedToBase"),
-  ("ASAM::CMP::EthernetPayload::getHeader EthernetPayload::Header *()", "cast kind UncheckedDerivedToBase"),
-  ("ASAM::CMP::EthernetPayload::getHeader const EthernetPayload::Header *() const", "cast kind UncheckedDerivedToBase"),
-  ("ASAM::CMP::EthernetPayload::setData void (const uint8_t *, const uint16_t)", "cast kind UncheckedDerivedToBase"),
-  ("ASAM::CMP::EthernetPayload::setFlag void (ASAM::CMP::EthernetPayload::Flags, bool)", "cast kind UncheckedDerivedToBase"),
-  ("ASAM::CMP::EthernetPayload::setFlags void (uint16_t)", "cast kind UncheckedDerivedToBase"),
-  ("ASAM::CMP::InterfacePayload::getErrorsTotalRx uint32_t () const", "cast kind UncheckedDerivedToBase"),
-  ("ASAM::CMP::InterfacePayload::getErrorsTotalTx uint32_t () const", "cast kind UncheckedDerivedToBase"),
-  ("ASAM::CMP::InterfacePayload::getFeatureSupportBitmask uint32_t () const", "cast kind UncheckedDerivedToBase"),
-  ("ASAM::CMP::InterfacePayload::getHeader InterfacePayload::Header *()", "cast kind UncheckedDerivedToBase"),
-  ("ASAM::CMP::InterfacePayload::getHeader const InterfacePayload::Header *() const", "cast kind UncheckedDerivedToBase"),
-  ("ASAM::CMP::InterfacePayload::getInterfaceId uint32_t () const", "cast kind UncheckedDerivedToBase"),
-  ("ASAM::CMP::InterfacePayload::getInterfaceStatus InterfacePayload::InterfaceStatus () const", "cast kind UncheckedDerivedToBase"),
-  ("ASAM::CMP::InterfacePayload::getInterfaceType uint8_t () const", "cast kind UncheckedDerivedToBase"),
-  ("ASAM::CMP::InterfacePayload::getMsgDroppedRx uint32_t () const", "cast kind UncheckedDerivedToBase"),
-  ("ASAM::CMP::InterfacePayload::getMsgDroppedTx uint32_t () const", "cast kind UncheckedDerivedToBase"),
-  ("ASAM::CMP::InterfacePayload::getMsgTotalRx uint32_t () const", "cast kind UncheckedDerivedToBase"),
-  ("ASAM::CMP::InterfacePayload::getMsgTotalTx uint32_t () const", "cast kind UncheckedDerivedToBase"),
-  ("ASAM::CMP::InterfacePayload::getStreamIdCountPtr const uint8_t *() const", "cast kind UncheckedDerivedToBase"),
-  ("ASAM::CMP::InterfacePayload::getStreamIds const uint8_t *() const", "cast kind UncheckedDerivedToBase"),
-  ("ASAM::CMP::InterfacePayload::getStreamIdsCount uint16_t () const", "cast kind UncheckedDerivedToBase"),
-  ("ASAM::CMP::InterfacePayload::getVendorData const uint8_t *() const", "cast kind UncheckedDerivedToBase"),
-  ("ASAM::CMP::InterfacePayload::getVendorDataLength uint16_t () const", "cast kind UncheckedDerivedToBase"),
-  ("ASAM::CMP::InterfacePayload::getVendorDataLengthPtr const uint8_t *() const", "cast kind UncheckedDerivedToBase"),
-  ("ASAM::CMP::InterfacePayload::setData void (const uint8_t *, const uint16_t, const uint8_t *, const uint16_t)", "cast kind UncheckedDerivedToBase"),
-  ("ASAM::CMP::InterfacePayload::setErrorsTotalRx void (const uint32_t)", "cast kind UncheckedDerivedToBase"),
-  ("ASAM::CMP::InterfacePayload::setErrorsTotalTx void (const uint32_t)", "cast kind UncheckedDerivedToBase"),
-  ("ASAM::CMP::InterfacePayload::setFeatureSupportBitmask void (const uint32_t)", "cast kind UncheckedDerivedToBase"),
-  ("ASAM::CMP::InterfacePayload::setInterfaceId void (const uint32_t)", "cast kind UncheckedDerivedToBase"),
-  ("ASAM::CMP::InterfacePayload::setInterfaceStatus void (const ASAM::CMP::InterfacePayload::InterfaceStatus)", "cast kind UncheckedDerivedToBase"),
-  ("ASAM::CMP::InterfacePayload::setInterfaceType void (const uint8_t)", "cast kind UncheckedDerivedToBase"),
-  ("ASAM::CMP::InterfacePayload::setMsgDroppedRx void (const uint32_t)", "cast kind UncheckedDerivedToBase"),
-  ("ASAM::CMP::InterfacePayload::setMsgDroppedTx void (const uint32_t)", "cast kind UncheckedDerivedToBase"),
-  ("ASAM::CMP::InterfacePayload::setMsgTotalRx void (const uint32_t)", "cast kind UncheckedDerivedToBase"),
-  ("ASAM::CMP::InterfacePayload::setMsgTotalTx void (const uint32_t)", "cast kind UncheckedDerivedToBase"),
+  ("ASAM::CMP::EthernetPayload::setData void (const uint8_t *, const uint16_t)", "no body for callee outside the library (std / libc)"),
+  ("ASAM::CMP::InterfacePayload::setData void (const uint8_t *, const uint16_t, const uint8_t *, const uint16_t)", "no body for callee outside the library (std / libc)"),
   ("ASAM::CMP::InterfaceStatus::getPacket ASAM::CMP::Packet &()", "reference type ASAM::CMP::Packet &"),
   ("ASAM::CMP::InterfaceStatus::getPacket const ASAM::CMP::Packet &() const", "reference type const ASAM::CMP::Packet &"),
   ("ASAM::CMP::InterfaceStatus::operator= ASAM::CMP::InterfaceStatus &(ASAM::CMP::InterfaceStatus &&) noexcept", "reference type ASAM::CMP::InterfaceStatus &"),
   ("ASAM::CMP::InterfaceStatus::update void (const ASAM::CMP::Packet &)", "reference type const ASAM::CMP::Packet &"),
-  ("ASAM::CMP::LinPayload::getChecksum uint8_t () const", "cast kind UncheckedDerivedToBase"),
-  ("ASAM::CMP::LinPayload::getData const uint8_t *() const", "cast kind UncheckedDerivedToBase"),
-  ("ASAM::CMP::LinPayload::getDataLength uint8_t () const", "cast kind UncheckedDerivedToBase"),
-  ("ASAM::CMP::LinPayload::getFlag bool (ASAM::CMP::LinPayload::Flags) const", "cast kind UncheckedDerivedToBase"),
-  ("ASAM::CMP::LinPayload::getFlags uint16_t () const", "cast kind UncheckedDerivedToBase"),
-  ("ASAM::CMP::LinPayload::getHeader LinPayload::Header *()", "cast kind UncheckedDerivedToBase"),
-  ("ASAM::CMP::LinPayload::getHeader const LinPayload::Header *() const", "cast kind UncheckedDerivedToBase"),
-  ("ASAM::CMP::LinPayload::getLinId uint8_t () const", "cast kind UncheckedDerivedToBase"),
-  ("ASAM::CMP::LinPayload::getParityBits uint8_t () const", "cast kind UncheckedDerivedToBase"),
-  ("ASAM::CMP::LinPayload::setChecksum void (const uint8_t)", "cast kind UncheckedDerivedToBase"),
-  ("ASAM::CMP::LinPayload::setData void (const uint8_t *, const uint8_t)", "cast kind UncheckedDerivedToBase"),
-  ("ASAM::CMP::LinPayload::setFlag void (ASAM::CMP::LinPayload::Flags, bool)", "cast kind UncheckedDerivedToBase"),
-  ("ASAM::CMP::LinPayload::setFlags void (uint16_t)", "cast kind UncheckedDerivedToBase"),
-  ("ASAM::CMP::LinPayload::setLinId void (const uint8_t)", "cast kind UncheckedDerivedToBase"),
-  ("ASAM::CMP::LinPayload::setParityBits void (const uint8_t)", "cast kind UncheckedDerivedToBase"),
+  ("ASAM::CMP::LinPayload::setData void (const uint8_t *, const uint8_t)", "no body for callee outside the library (std / libc)"),
   ("ASAM::CMP::Packet::create std::unique_ptr<Payload> (const ASAM::CMP::PayloadType, const uint8_t *, const size_t)", "type std::unique_ptr<Payload>"),
   ("ASAM::CMP::Packet::getMessageType CmpHeader::MessageType () const", "overloaded operator"),
   ("ASAM::CMP::Packet::getPayload ASAM::CMP::Payload &()", "reference type ASAM::CMP::Payload &"),
@@ -1947,8 +2964,6 @@ def untranslated : List (String × String) := [
   ("ASAM::CMP::Packet::operator= ASAM::CMP::Packet &(const ASAM::CMP::Packet &)", "reference type ASAM::CMP::Packet &"),
   ("ASAM::CMP::Packet::setMessageHeader void (const CmpHeader::MessageType, ASAM::CMP::MessageHeader)", "type ASAM::CMP::MessageHeader"),
   ("ASAM::CMP::Packet::setPayload void (const ASAM::CMP::Payload &)", "reference type const ASAM::CMP::Payload &"),
-  ("ASAM::CMP::Payload::getLength size_t () const", "no body for callee outside the library (std / libc)"),
-  ("ASAM::CMP::Payload::getRawPayload const uint8_t *() const", "no body for callee outside the library (std / libc)"),
   ("ASAM::CMP::Payload::getType ASAM::CMP::PayloadType () const", "expression CXXConstructExpr"),
   ("ASAM::CMP::Payload::setData void (const uint8_t *, const size_t)", "no body for callee outside the library (std / libc)"),
   ("ASAM::CMP::Payload::setType void (const ASAM::CMP::PayloadType)", "overloaded operator"),
@@ -1968,57 +2983,10 @@ def untranslated : List (String × String) := [
   ("ASAM::CMP::operator== bool (const ASAM::CMP::PayloadType, const ASAM::CMP::PayloadType) noexcept", "method call on a local object"),
   ("ASAM::CMP::swap void (ASAM::CMP::Packet &, ASAM::CMP::Packet &) noexcept", "reference type ASAM::CMP::Packet &"),
   ("ASAM::CMP::swapEndian float (const float)", "type float"),
-  ("TECMP::CanPayload::getArbId uint32_t () const", "cast kind UncheckedDerivedToBase"),
-  ("TECMP::CanPayload::getCrc uint32_t () const", "cast kind UncheckedDerivedToBase"),
-  ("TECMP::CanPayload::getData const uint8_t *() const", "cast kind UncheckedDerivedToBase"),
-  ("TECMP::CanPayload::getDlc uint8_t () const", "cast kind UncheckedDerivedToBase"),
-  ("TECMP::CanPayload::getHeader TECMP::CanPayload::Header *()", "cast kind UncheckedDerivedToBase"),
-  ("TECMP::CanPayload::getHeader const TECMP::CanPayload::Header *() const", "cast kind UncheckedDerivedToBase"),
-  ("TECMP::CanPayload::setArbId void (uint32_t)", "cast kind UncheckedDerivedToBase"),
-  ("TECMP::CanPayload::setDlc void (uint8_t)", "cast kind UncheckedDerivedToBase"),
-  ("TECMP::CaptureModulePayload::getBufferFill uint8_t () const", "cast kind UncheckedDerivedToBase"),
-  ("TECMP::CaptureModulePayload::getBufferSize uint32_t () const", "cast kind UncheckedDerivedToBase"),
-  ("TECMP::CaptureModulePayload::getChassisTemp uint8_t () const", "cast kind UncheckedDerivedToBase"),
-  ("TECMP::CaptureModulePayload::getDeviceId uint16_t () const", "cast kind UncheckedDerivedToBase"),
-  ("TECMP::CaptureModulePayload::getDeviceType uint8_t () const", "cast kind UncheckedDerivedToBase"),
-  ("TECMP::CaptureModulePayload::getDeviceVersion uint8_t () const", "cast kind UncheckedDerivedToBase"),
-  ("TECMP::CaptureModulePayload::getHeader TECMP::CaptureModulePayload::Header *()", "cast kind UncheckedDerivedToBase"),
-  ("TECMP::CaptureModulePayload::getHeader const TECMP::CaptureModulePayload::Header *() const", "cast kind UncheckedDerivedToBase"),
+  ("TECMP::CanPayload::getCrc uint32_t () const", "no body for callee outside the library (std / libc)"),
   ("TECMP::CaptureModulePayload::getHwVersion std::string () const", "type std::string"),
-  ("TECMP::CaptureModulePayload::getHwVersionMajor uint8_t () const", "cast kind UncheckedDerivedToBase"),
-  ("TECMP::CaptureModulePayload::getHwVersionMinor uint8_t () const", "cast kind UncheckedDerivedToBase"),
-  ("TECMP::CaptureModulePayload::getIsBufferOverflow uint8_t () const", "cast kind UncheckedDerivedToBase"),
-  ("TECMP::CaptureModulePayload::getLifecycle uint64_t () const", "cast kind UncheckedDerivedToBase"),
-  ("TECMP::CaptureModulePayload::getSerialNumber uint32_t () const", "cast kind UncheckedDerivedToBase"),
-  ("TECMP::CaptureModulePayload::getSilliconTemp uint8_t () const", "cast kind UncheckedDerivedToBase"),
   ("TECMP::CaptureModulePayload::getSwVersion std::string () const", "type std::string"),
-  ("TECMP::CaptureModulePayload::getSwVersionMajor uint8_t () const", "cast kind UncheckedDerivedToBase"),
-  ("TECMP::CaptureModulePayload::getSwVersionMinor uint8_t () const", "cast kind UncheckedDerivedToBase"),
-  ("TECMP::CaptureModulePayload::getSwVersionPatch uint8_t () const", "cast kind UncheckedDerivedToBase"),
-  ("TECMP::CaptureModulePayload::getVendorDataLength uint16_t () const", "cast kind UncheckedDerivedToBase"),
-  ("TECMP::CaptureModulePayload::getVendorId uint8_t () const", "cast kind UncheckedDerivedToBase"),
   ("TECMP::CaptureModulePayload::getVoltage float () const", "type float"),
-  ("TECMP::CaptureModulePayload::getVoltageFraction uint8_t () const", "cast kind UncheckedDerivedToBase"),
-  ("TECMP::CaptureModulePayload::getVoltageWhole uint8_t () const", "cast kind UncheckedDerivedToBase"),
-  ("TECMP::CaptureModulePayload::setBufferFill void (uint8_t)", "cast kind UncheckedDerivedToBase"),
-  ("TECMP::CaptureModulePayload::setBufferSize void (uint32_t)", "cast kind UncheckedDerivedToBase"),
-  ("TECMP::CaptureModulePayload::setChassisTemp void (uint8_t)", "cast kind UncheckedDerivedToBase"),
-  ("TECMP::CaptureModulePayload::setDeviceId void (uint16_t)", "cast kind UncheckedDerivedToBase"),
-  ("TECMP::CaptureModulePayload::setDeviceType void (uint8_t)", "cast kind UncheckedDerivedToBase"),
-  ("TECMP::CaptureModulePayload::setDeviceVersion void (uint8_t)", "cast kind UncheckedDerivedToBase"),
-  ("TECMP::CaptureModulePayload::setHwVersionMajor void (uint8_t)", "cast kind UncheckedDerivedToBase"),
-  ("TECMP::CaptureModulePayload::setHwVersionMinor void (uint8_t)", "cast kind UncheckedDerivedToBase"),
-  ("TECMP::CaptureModulePayload::setIsBufferOverflow void (uint8_t)", "cast kind UncheckedDerivedToBase"),
-  ("TECMP::CaptureModulePayload::setLifecycle void (uint64_t)", "cast kind UncheckedDerivedToBase"),
-  ("TECMP::CaptureModulePayload::setSerialNumber void (uint32_t)", "cast kind UncheckedDerivedToBase"),
-  ("TECMP::CaptureModulePayload::setSilliconTemp void (uint8_t)", "cast kind UncheckedDerivedToBase"),
-  ("TECMP::CaptureModulePayload::setSwVersionMajor void (uint8_t)", "cast kind UncheckedDerivedToBase"),
-  ("TECMP::CaptureModulePayload::setSwVersionMinor void (uint8_t)", "cast kind UncheckedDerivedToBase"),
-  ("TECMP::CaptureModulePayload::setSwVersionPatch void (uint8_t)", "cast kind UncheckedDerivedToBase"),
-  ("TECMP::CaptureModulePayload::setVendorDataLength void (uint16_t)", "cast kind UncheckedDerivedToBase"),
-  ("TECMP::CaptureModulePayload::setVendorId void (uint8_t)", "cast kind UncheckedDerivedToBase"),
-  ("TECMP::CaptureModulePayload::setVoltageFraction void (uint8_t)", "cast kind UncheckedDerivedToBase"),
-  ("TECMP::CaptureModulePayload::setVoltageWhole void (uint8_t)", "cast kind UncheckedDerivedToBase"),
   ("TECMP::Converter::ConvertCanFdPayload PacketPtr (TECMP::CanPayload *, TECMP::Converter::PacketPtr)", "type PacketPtr"),
   ("TECMP::Converter::ConvertCanPayload PacketPtr (TECMP::CmpHeader &, const TECMP::Converter::TecmpPayloadPtr &)", "type PacketPtr"),
   ("TECMP::Converter::ConvertCaptureModulePayload PacketPtr (TECMP::CmpHeader &, const TECMP::Converter::TecmpPayloadPtr &)", "type PacketPtr"),
@@ -2036,45 +3004,9 @@ def untranslated : List (String × String) := [
   ("TECMP::Decoder::GetInterfacePayload std::vector<TecmpPayloadPtr> (const uint8_t *, const std::size_t, TECMP::CmpHeader &)", "type std::vector<TecmpPayloadPtr>"),
   ("TECMP::Decoder::GetLinPayload TecmpPayloadPtr (const uint8_t *, const std::size_t)", "type TecmpPayloadPtr"),
   ("TECMP::Decoder::HandlePayload std::vector<TecmpPayloadPtr> (const uint8_t *, const std::size_t, TECMP::CmpHeader &)", "type std::vector<TecmpPayloadPtr>"),
-  ("TECMP::InterfacePayload::getCmType uint8_t () const", "cast kind UncheckedDerivedToBase"),
-  ("TECMP::InterfacePayload::getCmVersion uint8_t () const", "cast kind UncheckedDerivedToBase"),
-  ("TECMP::InterfacePayload::getDeviceId uint16_t () const", "cast kind UncheckedDerivedToBase"),
-  ("TECMP::InterfacePayload::getErrorsTotal uint32_t () const", "cast kind UncheckedDerivedToBase"),
-  ("TECMP::InterfacePayload::getHeader TECMP::InterfacePayload::Header *()", "cast kind UncheckedDerivedToBase"),
-  ("TECMP::InterfacePayload::getHeader const TECMP::InterfacePayload::Header *() const", "cast kind UncheckedDerivedToBase"),
-  ("TECMP::InterfacePayload::getInterfaceId uint32_t () const", "cast kind UncheckedDerivedToBase"),
-  ("TECMP::InterfacePayload::getMessagesTotal uint32_t () const", "cast kind UncheckedDerivedToBase"),
-  ("TECMP::InterfacePayload::getSerialNumber uint32_t () const", "cast kind UncheckedDerivedToBase"),
-  ("TECMP::InterfacePayload::getVendorDataLength uint16_t () const", "cast kind UncheckedDerivedToBase"),
-  ("TECMP::InterfacePayload::getVendorDataLinkQuality uint8_t () const", "cast kind UncheckedDerivedToBase"),
-  ("TECMP::InterfacePayload::getVendorDataLinkStatus uint8_t () const", "cast kind UncheckedDerivedToBase"),
-  ("TECMP::InterfacePayload::getVendorDataLinkupTime uint16_t () const", "cast kind UncheckedDerivedToBase"),
-  ("TECMP::InterfacePayload::getVendorId uint8_t () const", "cast kind UncheckedDerivedToBase"),
   ("TECMP::InterfacePayload::setBusData void (const uint8_t *, const uint8_t)", "no body for callee outside the library (std / libc)"),
-  ("TECMP::InterfacePayload::setCmType void (uint8_t)", "cast kind UncheckedDerivedToBase"),
-  ("TECMP::InterfacePayload::setCmVersion void (uint8_t)", "cast kind UncheckedDerivedToBase"),
-  ("TECMP::InterfacePayload::setDeviceId void (uint16_t)", "cast kind UncheckedDerivedToBase"),
-  ("TECMP::InterfacePayload::setErrorsTotal void (uint32_t)", "cast kind UncheckedDerivedToBase"),
   ("TECMP::InterfacePayload::setGenericData void (const uint8_t *)", "no body for callee outside the library (std / libc)"),
-  ("TECMP::InterfacePayload::setInterfaceId void (uint32_t)", "cast kind UncheckedDerivedToBase"),
-  ("TECMP::InterfacePayload::setMessagesTotal void (uint32_t)", "cast kind UncheckedDerivedToBase"),
-  ("TECMP::InterfacePayload::setSerialNumber void (uint32_t)", "cast kind UncheckedDerivedToBase"),
-  ("TECMP::InterfacePayload::setVendorDataLength void (uint16_t)", "cast kind UncheckedDerivedToBase"),
-  ("TECMP::InterfacePayload::setVendorDataLinkQuality void (uint8_t)", "cast kind UncheckedDerivedToBase"),
-  ("TECMP::InterfacePayload::setVendorDataLinkStatus void (uint8_t)", "cast kind UncheckedDerivedToBase"),
-  ("TECMP::InterfacePayload::setVendorDataLinkupTime void (uint16_t)", "cast kind UncheckedDerivedToBase"),
-  ("TECMP::InterfacePayload::setVendorId void (uint8_t)", "cast kind UncheckedDerivedToBase"),
-  ("TECMP::LinPayload::getCrc uint8_t () const", "cast kind UncheckedDerivedToBase"),
-  ("TECMP::LinPayload::getData const uint8_t *() const", "cast kind UncheckedDerivedToBase"),
-  ("TECMP::LinPayload::getDataLength uint8_t () const", "cast kind UncheckedDerivedToBase"),
-  ("TECMP::LinPayload::getHeader TECMP::LinPayload::Header *()", "cast kind UncheckedDerivedToBase"),
-  ("TECMP::LinPayload::getHeader const TECMP::LinPayload::Header *() const", "cast kind UncheckedDerivedToBase"),
-  ("TECMP::LinPayload::getPid uint8_t () const", "cast kind UncheckedDerivedToBase"),
-  ("TECMP::LinPayload::setData void (const uint8_t *, const uint8_t)", "cast kind UncheckedDerivedToBase"),
-  ("TECMP::LinPayload::setDataLength void (uint8_t)", "cast kind UncheckedDerivedToBase"),
-  ("TECMP::LinPayload::setPid void (uint8_t)", "cast kind UncheckedDerivedToBase"),
-  ("TECMP::Payload::getLength size_t () const", "no body for callee outside the library (std / libc)"),
-  ("TECMP::Payload::getRawPayload const uint8_t *() const", "no body for callee outside the library (std / libc)"),
+  ("TECMP::LinPayload::setData void (const uint8_t *, const uint8_t)", "no body for callee outside the library (std / libc)"),
   ("TECMP::Payload::getType TECMP::PayloadType () const", "expression CXXConstructExpr"),
   ("TECMP::Payload::setData void (const uint8_t *, const size_t)", "no body for callee outside the library (std / libc)"),
   ("TECMP::Payload::setType void (const TECMP::PayloadType)", "overloaded operator"),
@@ -2270,6 +3202,6 @@ def off_TECMP_Payload_payloadData : Nat := 8
 def off_TECMP_Payload_type : Nat := 32
 def off_TECMP_PayloadType_type : Nat := 0
 
-def translatedNames : List String := ["swapEndian_u16", "AnalogPayload_Header_getFlags", "AnalogPayload_Header_getSampleDt", "AnalogPayload_Header_getUnit", "AnalogPayload_Header_setFlags", "to_underlying_u16", "AnalogPayload_Header_setSampleDt", "to_underlying_u8", "AnalogPayload_Header_setUnit", "AnalogPayload_isValidPayload", "swapEndian_u32", "CanPayloadBase_Header_getCrc", "CanPayloadBase_Header_getCrcSbc", "CanPayloadBase_Header_getCrcSupport", "CanPayloadBase_Header_getDataLength", "CanPayloadBase_Header_getDlc", "CanPayloadBase_Header_getErrorPosition", "CanPayloadBase_Header_getFlags", "CanPayloadBase_Header_getFlag", "CanPayloadBase_Header_getId", "CanPayloadBase_Header_getIde", "CanPayloadBase_Header_getRsvd", "CanPayloadBase_Header_getRtrRrs", "CanPayloadBase_Header_getSbc", "CanPayloadBase_Header_getSbcParity", "CanPayloadBase_Header_getSbcSupport", "CanPayloadBase_Header_hasError", "CanPayloadBase_Header_setCrc", "CanPayloadBase_Header_setCrcSbc", "CanPayloadBase_Header_setCrcSupport", "CanPayloadBase_Header_setDataLength", "CanPayloadBase_Header_setDlc", "CanPayloadBase_Header_setErrorPosition", "CanPayloadBase_Header_setFlags", "CanPayloadBase_Header_setFlag", "CanPayloadBase_Header_setId", "CanPayloadBase_Header_setIde", "CanPayloadBase_Header_setRsvd", "CanPayloadBase_Header_setRtrRrs", "CanPayloadBase_Header_setSbc", "CanPayloadBase_Header_setSbcParity", "CanPayloadBase_Header_setSbcSupport", "CanPayloadBase_encodeDlc", "CanPayloadBase_isValidPayload", "CaptureModulePayload_Header_getCurrentUtcOffset", "CaptureModulePayload_Header_getDomainNumber", "CaptureModulePayload_Header_getGmClockQuality", "swapEndian_u64", "CaptureModulePayload_Header_getGmIdentity", "CaptureModulePayload_Header_getGptpFlags", "CaptureModulePayload_Header_getTimeSource", "CaptureModulePayload_Header_getUptime", "CaptureModulePayload_Header_setCurrentUtcOffset", "CaptureModulePayload_Header_setDomainNumber", "CaptureModulePayload_Header_setGmClockQuality", "CaptureModulePayload_Header_setGmIdentity", "CaptureModulePayload_Header_setGptpFlags", "CaptureModulePayload_Header_setTimeSource", "CaptureModulePayload_Header_setUptime", "CaptureModulePayload_isValidPayload", "CmpHeader_getDeviceId", "CmpHeader_getMessageType", "CmpHeader_getSequenceCounter", "CmpHeader_getStreamId", "CmpHeader_getVersion", "CmpHeader_setDeviceId", "to_underlying_u82", "CmpHeader_setMessageType", "CmpHeader_setSequenceCounter", "CmpHeader_setStreamId", "CmpHeader_setVersion", "MessageHeader_getPayloadLength", "to_underlying_u83", "MessageHeader_getSegmentType", "Decoder_SegmentedPacket_isValidSegmentType", "Decoder_SegmentedPacket_isAssembled", "Decoder_isFirstSegment", "Decoder_isSegmentedPacket", "Encoder_buildSegmentationFlag", "Encoder_getDeviceId", "Encoder_getSequenceCounter", "Encoder_getStreamId", "Encoder_restart", "EthernetPayload_Header_getDataLength", "EthernetPayload_Header_getFlags", "EthernetPayload_Header_getFlag", "EthernetPayload_Header_setDataLength", "EthernetPayload_Header_setFlags", "EthernetPayload_Header_setFlag", "EthernetPayload_isValidPayload", "InterfacePayload_Header_getErrorsTotalRx", "InterfacePayload_Header_getErrorsTotalTx", "InterfacePayload_Header_getFeatureSupportBitmask", "InterfacePayload_Header_getInterfaceId", "InterfacePayload_Header_getInterfaceStatus", "InterfacePayload_Header_getInterfaceType", "InterfacePayload_Header_getMsgDroppedRx", "InterfacePayload_Header_getMsgDroppedTx", "InterfacePayload_Header_getMsgTotalRx", "InterfacePayload_Header_getMsgTotalTx", "InterfacePayload_Header_setErrorsTotalRx", "InterfacePayload_Header_setErrorsTotalTx", "InterfacePayload_Header_setFeatureSupportBitmask", "InterfacePayload_Header_setInterfaceId", "to_underlying_u84", "InterfacePayload_Header_setInterfaceStatus", "InterfacePayload_Header_setInterfaceType", "InterfacePayload_Header_setMsgDroppedRx", "InterfacePayload_Header_setMsgDroppedTx", "InterfacePayload_Header_setMsgTotalRx", "InterfacePayload_Header_setMsgTotalTx", "InterfacePayload_toUint16", "InterfacePayload_isValidPayload", "InterfaceStatus_getInterfaceId", "LinPayload_Header_getChecksum", "LinPayload_Header_getDataLength", "LinPayload_Header_getFlags", "LinPayload_Header_getFlag", "LinPayload_Header_getLinId", "LinPayload_Header_getParityBits", "LinPayload_Header_setChecksum", "LinPayload_Header_setDataLength", "LinPayload_Header_setFlags", "LinPayload_Header_setFlag", "LinPayload_Header_setLinId", "LinPayload_Header_setParityBits", "LinPayload_isValidPayload", "MessageHeader_getCommonFlag", "MessageHeader_getCommonFlags", "MessageHeader_getInterfaceId", "MessageHeader_getPayloadType", "MessageHeader_getTimestamp", "MessageHeader_getVendorId", "MessageHeader_setCommonFlag", "MessageHeader_setCommonFlags", "MessageHeader_setInterfaceId", "MessageHeader_setPayloadLength", "MessageHeader_setPayloadType", "to_underlying_u85", "MessageHeader_setSegmentType", "MessageHeader_setTimestamp", "MessageHeader_setVendorId", "Packet_getCommonFlag", "Packet_getCommonFlags", "Packet_getDeviceId", "Packet_getInterfaceId", "Packet_getSegmentType", "Packet_getSequenceCounter", "Packet_getStreamId", "Packet_getTimestamp", "Packet_getVendorId", "Packet_getVersion", "Packet_isValidPacket", "Packet_setCommonFlag", "Packet_setCommonFlags", "Packet_setDeviceId", "Packet_setInterfaceId", "Packet_setSegmentType", "Packet_setSequenceCounter", "Packet_setStreamId", "Packet_setTimestamp", "Packet_setVendorId", "Packet_setVersion", "PayloadType_getMessageType", "Payload_getMessageType", "PayloadType_getRawPayloadType", "Payload_getRawPayloadType", "PayloadType_isValid", "Payload_isValid", "PayloadType_setMessageType", "Payload_setMessageType", "PayloadType_setRawPayloadType", "Payload_setRawPayloadType", "PayloadType_getType", "PayloadType_setType", "swapEndian_u8", "to_underlying_u162", "to_underlying_u86", "TECMP_CanPayload_Header_getArbId", "TECMP_CanPayload_Header_getDlc", "TECMP_CanPayload_Header_setArbId", "TECMP_CanPayload_Header_setDlc", "TECMP_CaptureModulePayload_Header_getBufferFill", "TECMP_CaptureModulePayload_Header_getBufferSize", "TECMP_CaptureModulePayload_Header_getChassisTemp", "TECMP_CaptureModulePayload_Header_getDeviceId", "TECMP_CaptureModulePayload_Header_getDeviceType", "TECMP_CaptureModulePayload_Header_getDeviceVersion", "TECMP_CaptureModulePayload_Header_getHwVersionMajor", "TECMP_CaptureModulePayload_Header_getHwVersionMinor", "TECMP_CaptureModulePayload_Header_getIsBufferOverflow", "TECMP_CaptureModulePayload_Header_getLifecycle", "TECMP_CaptureModulePayload_Header_getSerialNumber", "TECMP_CaptureModulePayload_Header_getSilliconTemp", "TECMP_CaptureModulePayload_Header_getSwVersionMajor", "TECMP_CaptureModulePayload_Header_getSwVersionMinor", "TECMP_CaptureModulePayload_Header_getSwVersionPatch", "TECMP_CaptureModulePayload_Header_getVendorDataLength", "TECMP_CaptureModulePayload_Header_getVendorId", "TECMP_CaptureModulePayload_Header_getVoltageFraction", "TECMP_CaptureModulePayload_Header_getVoltageWhole", "TECMP_CaptureModulePayload_Header_setBufferFill", "TECMP_CaptureModulePayload_Header_setBufferSize", "TECMP_CaptureModulePayload_Header_setChassisTemp", "TECMP_CaptureModulePayload_Header_setDeviceId", "TECMP_CaptureModulePayload_Header_setDeviceType", "TECMP_CaptureModulePayload_Header_setDeviceVersion", "TECMP_CaptureModulePayload_Header_setHwVersionMajor", "TECMP_CaptureModulePayload_Header_setHwVersionMinor", "TECMP_CaptureModulePayload_Header_setIsBufferOverflow", "TECMP_CaptureModulePayload_Header_setLifecycle", "TECMP_CaptureModulePayload_Header_setSerialNumber", "TECMP_CaptureModulePayload_Header_setSilliconTemp", "TECMP_CaptureModulePayload_Header_setSwVersionMajor", "TECMP_CaptureModulePayload_Header_setSwVersionMinor", "TECMP_CaptureModulePayload_Header_setSwVersionPatch", "TECMP_CaptureModulePayload_Header_setVendorDataLength", "TECMP_CaptureModulePayload_Header_setVendorId", "TECMP_CaptureModulePayload_Header_setVoltageFraction", "TECMP_CaptureModulePayload_Header_setVoltageWhole", "TECMP_CmpHeader_getDataType", "TECMP_CmpHeader_getDeviceFlags", "TECMP_CmpHeader_getDeviceId", "TECMP_CmpHeader_getInterfaceId", "TECMP_CmpHeader_getMessageType", "TECMP_CmpHeader_getPayloadLength", "TECMP_CmpHeader_getSequenceCounter", "TECMP_CmpHeader_getTimestamp", "TECMP_CmpHeader_getVersion", "TECMP_CmpHeader_isValid", "TECMP_CmpHeader_setDataType", "TECMP_CmpHeader_setDeviceFlags", "TECMP_CmpHeader_setDeviceId", "TECMP_CmpHeader_setInterfaceId", "TECMP_CmpHeader_setMessageType", "TECMP_CmpHeader_setPayloadLength", "TECMP_CmpHeader_setSequenceCounter", "TECMP_CmpHeader_setTimestamp", "TECMP_CmpHeader_setVersion", "TECMP_InterfacePayload_Header_getCmType", "TECMP_InterfacePayload_Header_getCmVersion", "TECMP_InterfacePayload_Header_getDeviceId", "TECMP_InterfacePayload_Header_getErrorsTotal", "TECMP_InterfacePayload_Header_getInterfaceId", "TECMP_InterfacePayload_Header_getMessagesTotal", "TECMP_InterfacePayload_Header_getSerialNumber", "TECMP_InterfacePayload_Header_getVendorDataLength", "TECMP_InterfacePayload_Header_getVendorDataLinkQuality", "TECMP_InterfacePayload_Header_getVendorDataLinkStatus", "TECMP_InterfacePayload_Header_getVendorDataLinkupTime", "TECMP_InterfacePayload_Header_getVendorId", "TECMP_InterfacePayload_Header_setCmType", "TECMP_InterfacePayload_Header_setCmVersion", "TECMP_InterfacePayload_Header_setDeviceId", "TECMP_InterfacePayload_Header_setErrorsTotal", "TECMP_InterfacePayload_Header_setInterfaceId", "TECMP_InterfacePayload_Header_setMessagesTotal", "TECMP_InterfacePayload_Header_setSerialNumber", "TECMP_InterfacePayload_Header_setVendorDataLength", "TECMP_InterfacePayload_Header_setVendorDataLinkQuality", "TECMP_InterfacePayload_Header_setVendorDataLinkStatus", "TECMP_InterfacePayload_Header_setVendorDataLinkupTime", "TECMP_InterfacePayload_Header_setVendorId", "TECMP_LinPayload_Header_getDataLength", "TECMP_LinPayload_Header_getPid", "TECMP_LinPayload_Header_setDataLength", "TECMP_LinPayload_Header_setPid", "TECMP_PayloadType_getMessageType", "TECMP_Payload_getMessageType", "TECMP_PayloadType_getRawPayloadType", "TECMP_Payload_getRawPayloadType", "TECMP_PayloadType_isValid", "TECMP_Payload_isValid", "TECMP_PayloadType_setMessageType", "TECMP_Payload_setMessageType", "TECMP_PayloadType_setRawPayloadType", "TECMP_Payload_setRawPayloadType", "TECMP_PayloadType_getType", "TECMP_PayloadType_setType"]
+def translatedNames : List String := ["swapEndian_u16", "AnalogPayload_Header_getFlags", "AnalogPayload_Header_getSampleDt", "AnalogPayload_Header_getUnit", "AnalogPayload_Header_setFlags", "to_underlying_u16", "AnalogPayload_Header_setSampleDt", "to_underlying_u8", "AnalogPayload_Header_setUnit", "Payload_getLength", "AnalogPayload_getHeader_v", "AnalogPayload_getSamplesCount", "AnalogPayload_getData", "AnalogPayload_getFlags", "AnalogPayload_getHeader_v2", "AnalogPayload_getSampleDt", "AnalogPayload_getUnit", "AnalogPayload_isValidPayload", "AnalogPayload_setFlags", "AnalogPayload_setSampleDt", "AnalogPayload_setUnit", "CanPayloadBase_getHeader_v", "swapEndian_u32", "CanPayloadBase_Header_getCrcSbc", "CanFdPayload_getCrc", "CanPayloadBase_Header_getRtrRrs", "CanFdPayload_getRrs", "CanPayloadBase_Header_getSbc", "CanFdPayload_getSbc", "CanPayloadBase_Header_getSbcParity", "CanFdPayload_getSbcParity", "CanPayloadBase_Header_getSbcSupport", "CanFdPayload_getSbcSupport", "CanPayloadBase_getHeader_v2", "CanPayloadBase_Header_setCrcSbc", "CanFdPayload_setCrc", "CanPayloadBase_Header_setRtrRrs", "CanFdPayload_setRrs", "CanPayloadBase_Header_setSbc", "CanFdPayload_setSbc", "CanPayloadBase_Header_setSbcParity", "CanFdPayload_setSbcParity", "CanPayloadBase_Header_setSbcSupport", "CanFdPayload_setSbcSupport", "CanPayloadBase_Header_getCrc", "CanPayload_getCrc", "CanPayload_getRtr", "CanPayloadBase_Header_setCrc", "CanPayload_setCrc", "CanPayload_setRtr", "CanPayloadBase_Header_getCrcSupport", "CanPayloadBase_Header_getDataLength", "CanPayloadBase_Header_getDlc", "CanPayloadBase_Header_getErrorPosition", "CanPayloadBase_Header_getFlags", "CanPayloadBase_Header_getFlag", "CanPayloadBase_Header_getId", "CanPayloadBase_Header_getIde", "CanPayloadBase_Header_getRsvd", "CanPayloadBase_Header_hasError", "CanPayloadBase_Header_setCrcSupport", "CanPayloadBase_Header_setDataLength", "CanPayloadBase_Header_setDlc", "CanPayloadBase_Header_setErrorPosition", "CanPayloadBase_Header_setFlags", "CanPayloadBase_Header_setFlag", "CanPayloadBase_Header_setId", "CanPayloadBase_Header_setIde", "CanPayloadBase_Header_setRsvd", "CanPayloadBase_encodeDlc", "CanPayloadBase_getCrcSupport", "CanPayloadBase_getDataLength", "CanPayloadBase_getData", "CanPayloadBase_getDlc", "CanPayloadBase_getErrorPosition", "CanPayloadBase_getFlag", "CanPayloadBase_getFlags", "CanPayloadBase_getId", "CanPayloadBase_getIde", "CanPayloadBase_getRsvd", "CanPayloadBase_isValidPayload", "CanPayloadBase_setCrcSupport", "CanPayloadBase_setErrorPosition", "CanPayloadBase_setFlag", "CanPayloadBase_setFlags", "CanPayloadBase_setId", "CanPayloadBase_setIde", "CanPayloadBase_setRsvd", "CaptureModulePayload_Header_getCurrentUtcOffset", "CaptureModulePayload_Header_getDomainNumber", "CaptureModulePayload_Header_getGmClockQuality", "swapEndian_u64", "CaptureModulePayload_Header_getGmIdentity", "CaptureModulePayload_Header_getGptpFlags", "CaptureModulePayload_Header_getTimeSource", "CaptureModulePayload_Header_getUptime", "CaptureModulePayload_Header_setCurrentUtcOffset", "CaptureModulePayload_Header_setDomainNumber", "CaptureModulePayload_Header_setGmClockQuality", "CaptureModulePayload_Header_setGmIdentity", "CaptureModulePayload_Header_setGptpFlags", "CaptureModulePayload_Header_setTimeSource", "CaptureModulePayload_Header_setUptime", "CaptureModulePayload_getHeader_v", "CaptureModulePayload_getCurrentUtcOffset", "CaptureModulePayload_getDomainNumber", "CaptureModulePayload_getGmClockQuality", "CaptureModulePayload_getGmIdentity", "CaptureModulePayload_getGptpFlags", "CaptureModulePayload_getHeader_v2", "CaptureModulePayload_getTimeSource", "CaptureModulePayload_getUptime", "CaptureModulePayload_isValidPayload", "CaptureModulePayload_setCurrentUtcOffset", "CaptureModulePayload_setDomainNumber", "CaptureModulePayload_setGmClockQuality", "CaptureModulePayload_setGmIdentity", "CaptureModulePayload_setGptpFlags", "CaptureModulePayload_setTimeSource", "CaptureModulePayload_setUptime", "CmpHeader_getDeviceId", "CmpHeader_getMessageType", "CmpHeader_getSequenceCounter", "CmpHeader_getStreamId", "CmpHeader_getVersion", "CmpHeader_setDeviceId", "to_underlying_u82", "CmpHeader_setMessageType", "CmpHeader_setSequenceCounter", "CmpHeader_setStreamId", "CmpHeader_setVersion", "MessageHeader_getPayloadLength", "to_underlying_u83", "MessageHeader_getSegmentType", "Decoder_SegmentedPacket_isValidSegmentType", "Decoder_SegmentedPacket_isAssembled", "Decoder_isFirstSegment", "Decoder_isSegmentedPacket", "Encoder_buildSegmentationFlag", "Encoder_getDeviceId", "Encoder_getSequenceCounter", "Encoder_getStreamId", "Encoder_restart", "EthernetPayload_Header_getDataLength", "EthernetPayload_Header_getFlags", "EthernetPayload_Header_getFlag", "EthernetPayload_Header_setDataLength", "EthernetPayload_Header_setFlags", "EthernetPayload_Header_setFlag", "EthernetPayload_getHeader_v", "EthernetPayload_getDataLength", "EthernetPayload_getData", "EthernetPayload_getFlag", "EthernetPayload_getFlags", "EthernetPayload_getHeader_v2", "EthernetPayload_isValidPayload", "EthernetPayload_setFlag", "EthernetPayload_setFlags", "InterfacePayload_Header_getErrorsTotalRx", "InterfacePayload_Header_getErrorsTotalTx", "InterfacePayload_Header_getFeatureSupportBitmask", "InterfacePayload_Header_getInterfaceId", "InterfacePayload_Header_getInterfaceStatus", "InterfacePayload_Header_getInterfaceType", "InterfacePayload_Header_getMsgDroppedRx", "InterfacePayload_Header_getMsgDroppedTx", "InterfacePayload_Header_getMsgTotalRx", "InterfacePayload_Header_getMsgTotalTx", "InterfacePayload_Header_setErrorsTotalRx", "InterfacePayload_Header_setErrorsTotalTx", "InterfacePayload_Header_setFeatureSupportBitmask", "InterfacePayload_Header_setInterfaceId", "to_underlying_u84", "InterfacePayload_Header_setInterfaceStatus", "InterfacePayload_Header_setInterfaceType", "InterfacePayload_Header_setMsgDroppedRx", "InterfacePayload_Header_setMsgDroppedTx", "InterfacePayload_Header_setMsgTotalRx", "InterfacePayload_Header_setMsgTotalTx", "InterfacePayload_getHeader_v", "InterfacePayload_getErrorsTotalRx", "InterfacePayload_getErrorsTotalTx", "InterfacePayload_getFeatureSupportBitmask", "InterfacePayload_getHeader_v2", "InterfacePayload_getInterfaceId", "InterfacePayload_getInterfaceStatus", "InterfacePayload_getInterfaceType", "InterfacePayload_getMsgDroppedRx", "InterfacePayload_getMsgDroppedTx", "InterfacePayload_getMsgTotalRx", "InterfacePayload_getMsgTotalTx", "InterfacePayload_getStreamIdCountPtr", "InterfacePayload_toUint16", "InterfacePayload_getStreamIdsCount", "InterfacePayload_getStreamIds", "InterfacePayload_getVendorDataLengthPtr", "InterfacePayload_getVendorDataLength", "InterfacePayload_getVendorData", "InterfacePayload_isValidPayload", "InterfacePayload_setErrorsTotalRx", "InterfacePayload_setErrorsTotalTx", "InterfacePayload_setFeatureSupportBitmask", "InterfacePayload_setInterfaceId", "InterfacePayload_setInterfaceStatus", "InterfacePayload_setInterfaceType", "InterfacePayload_setMsgDroppedRx", "InterfacePayload_setMsgDroppedTx", "InterfacePayload_setMsgTotalRx", "InterfacePayload_setMsgTotalTx", "InterfaceStatus_getInterfaceId", "LinPayload_Header_getChecksum", "LinPayload_Header_getDataLength", "LinPayload_Header_getFlags", "LinPayload_Header_getFlag", "LinPayload_Header_getLinId", "LinPayload_Header_getParityBits", "LinPayload_Header_setChecksum", "LinPayload_Header_setDataLength", "LinPayload_Header_setFlags", "LinPayload_Header_setFlag", "LinPayload_Header_setLinId", "LinPayload_Header_setParityBits", "LinPayload_getHeader_v", "LinPayload_getChecksum", "LinPayload_getDataLength", "LinPayload_getData", "LinPayload_getFlag", "LinPayload_getFlags", "LinPayload_getHeader_v2", "LinPayload_getLinId", "LinPayload_getParityBits", "LinPayload_isValidPayload", "LinPayload_setChecksum", "LinPayload_setFlag", "LinPayload_setFlags", "LinPayload_setLinId", "LinPayload_setParityBits", "MessageHeader_getCommonFlag", "MessageHeader_getCommonFlags", "MessageHeader_getInterfaceId", "MessageHeader_getPayloadType", "MessageHeader_getTimestamp", "MessageHeader_getVendorId", "MessageHeader_setCommonFlag", "MessageHeader_setCommonFlags", "MessageHeader_setInterfaceId", "MessageHeader_setPayloadLength", "MessageHeader_setPayloadType", "to_underlying_u85", "MessageHeader_setSegmentType", "MessageHeader_setTimestamp", "MessageHeader_setVendorId", "Packet_getCommonFlag", "Packet_getCommonFlags", "Packet_getDeviceId", "Packet_getInterfaceId", "Packet_getSegmentType", "Packet_getSequenceCounter", "Packet_getStreamId", "Packet_getTimestamp", "Packet_getVendorId", "Packet_getVersion", "Packet_isValidPacket", "Packet_setCommonFlag", "Packet_setCommonFlags", "Packet_setDeviceId", "Packet_setInterfaceId", "Packet_setSegmentType", "Packet_setSequenceCounter", "Packet_setStreamId", "Packet_setTimestamp", "Packet_setVendorId", "Packet_setVersion", "PayloadType_getMessageType", "Payload_getMessageType", "Payload_getRawPayload", "PayloadType_getRawPayloadType", "Payload_getRawPayloadType", "PayloadType_isValid", "Payload_isValid", "PayloadType_setMessageType", "Payload_setMessageType", "PayloadType_setRawPayloadType", "Payload_setRawPayloadType", "PayloadType_getType", "PayloadType_setType", "swapEndian_u8", "to_underlying_u162", "to_underlying_u86", "TECMP_CanPayload_Header_getArbId", "TECMP_CanPayload_Header_getDlc", "TECMP_CanPayload_Header_setArbId", "TECMP_CanPayload_Header_setDlc", "TECMP_CanPayload_getHeader_v", "TECMP_CanPayload_getArbId", "TECMP_CanPayload_getData", "TECMP_CanPayload_getDlc", "TECMP_CanPayload_getHeader_v2", "TECMP_CanPayload_setArbId", "TECMP_CanPayload_setDlc", "TECMP_CaptureModulePayload_Header_getBufferFill", "TECMP_CaptureModulePayload_Header_getBufferSize", "TECMP_CaptureModulePayload_Header_getChassisTemp", "TECMP_CaptureModulePayload_Header_getDeviceId", "TECMP_CaptureModulePayload_Header_getDeviceType", "TECMP_CaptureModulePayload_Header_getDeviceVersion", "TECMP_CaptureModulePayload_Header_getHwVersionMajor", "TECMP_CaptureModulePayload_Header_getHwVersionMinor", "TECMP_CaptureModulePayload_Header_getIsBufferOverflow", "TECMP_CaptureModulePayload_Header_getLifecycle", "TECMP_CaptureModulePayload_Header_getSerialNumber", "TECMP_CaptureModulePayload_Header_getSilliconTemp", "TECMP_CaptureModulePayload_Header_getSwVersionMajor", "TECMP_CaptureModulePayload_Header_getSwVersionMinor", "TECMP_CaptureModulePayload_Header_getSwVersionPatch", "TECMP_CaptureModulePayload_Header_getVendorDataLength", "TECMP_CaptureModulePayload_Header_getVendorId", "TECMP_CaptureModulePayload_Header_getVoltageFraction", "TECMP_CaptureModulePayload_Header_getVoltageWhole", "TECMP_CaptureModulePayload_Header_setBufferFill", "TECMP_CaptureModulePayload_Header_setBufferSize", "TECMP_CaptureModulePayload_Header_setChassisTemp", "TECMP_CaptureModulePayload_Header_setDeviceId", "TECMP_CaptureModulePayload_Header_setDeviceType", "TECMP_CaptureModulePayload_Header_setDeviceVersion", "TECMP_CaptureModulePayload_Header_setHwVersionMajor", "TECMP_CaptureModulePayload_Header_setHwVersionMinor", "TECMP_CaptureModulePayload_Header_setIsBufferOverflow", "TECMP_CaptureModulePayload_Header_setLifecycle", "TECMP_CaptureModulePayload_Header_setSerialNumber", "TECMP_CaptureModulePayload_Header_setSilliconTemp", "TECMP_CaptureModulePayload_Header_setSwVersionMajor", "TECMP_CaptureModulePayload_Header_setSwVersionMinor", "TECMP_CaptureModulePayload_Header_setSwVersionPatch", "TECMP_CaptureModulePayload_Header_setVendorDataLength", "TECMP_CaptureModulePayload_Header_setVendorId", "TECMP_CaptureModulePayload_Header_setVoltageFraction", "TECMP_CaptureModulePayload_Header_setVoltageWhole", "TECMP_CaptureModulePayload_getHeader_v", "TECMP_CaptureModulePayload_getBufferFill", "TECMP_CaptureModulePayload_getBufferSize", "TECMP_CaptureModulePayload_getChassisTemp", "TECMP_CaptureModulePayload_getDeviceId", "TECMP_CaptureModulePayload_getDeviceType", "TECMP_CaptureModulePayload_getDeviceVersion", "TECMP_CaptureModulePayload_getHeader_v2", "TECMP_CaptureModulePayload_getHwVersionMajor", "TECMP_CaptureModulePayload_getHwVersionMinor", "TECMP_CaptureModulePayload_getIsBufferOverflow", "TECMP_CaptureModulePayload_getLifecycle", "TECMP_CaptureModulePayload_getSerialNumber", "TECMP_CaptureModulePayload_getSilliconTemp", "TECMP_CaptureModulePayload_getSwVersionMajor", "TECMP_CaptureModulePayload_getSwVersionMinor", "TECMP_CaptureModulePayload_getSwVersionPatch", "TECMP_CaptureModulePayload_getVendorDataLength", "TECMP_CaptureModulePayload_getVendorId", "TECMP_CaptureModulePayload_getVoltageFraction", "TECMP_CaptureModulePayload_getVoltageWhole", "TECMP_CaptureModulePayload_setBufferFill", "TECMP_CaptureModulePayload_setBufferSize", "TECMP_CaptureModulePayload_setChassisTemp", "TECMP_CaptureModulePayload_setDeviceId", "TECMP_CaptureModulePayload_setDeviceType", "TECMP_CaptureModulePayload_setDeviceVersion", "TECMP_CaptureModulePayload_setHwVersionMajor", "TECMP_CaptureModulePayload_setHwVersionMinor", "TECMP_CaptureModulePayload_setIsBufferOverflow", "TECMP_CaptureModulePayload_setLifecycle", "TECMP_CaptureModulePayload_setSerialNumber", "TECMP_CaptureModulePayload_setSilliconTemp", "TECMP_CaptureModulePayload_setSwVersionMajor", "TECMP_CaptureModulePayload_setSwVersionMinor", "TECMP_CaptureModulePayload_setSwVersionPatch", "TECMP_CaptureModulePayload_setVendorDataLength", "TECMP_CaptureModulePayload_setVendorId", "TECMP_CaptureModulePayload_setVoltageFraction", "TECMP_CaptureModulePayload_setVoltageWhole", "TECMP_CmpHeader_getDataType", "TECMP_CmpHeader_getDeviceFlags", "TECMP_CmpHeader_getDeviceId", "TECMP_CmpHeader_getInterfaceId", "TECMP_CmpHeader_getMessageType", "TECMP_CmpHeader_getPayloadLength", "TECMP_CmpHeader_getSequenceCounter", "TECMP_CmpHeader_getTimestamp", "TECMP_CmpHeader_getVersion", "TECMP_CmpHeader_isValid", "TECMP_CmpHeader_setDataType", "TECMP_CmpHeader_setDeviceFlags", "TECMP_CmpHeader_setDeviceId", "TECMP_CmpHeader_setInterfaceId", "TECMP_CmpHeader_setMessageType", "TECMP_CmpHeader_setPayloadLength", "TECMP_CmpHeader_setSequenceCounter", "TECMP_CmpHeader_setTimestamp", "TECMP_CmpHeader_setVersion", "TECMP_InterfacePayload_Header_getCmType", "TECMP_InterfacePayload_Header_getCmVersion", "TECMP_InterfacePayload_Header_getDeviceId", "TECMP_InterfacePayload_Header_getErrorsTotal", "TECMP_InterfacePayload_Header_getInterfaceId", "TECMP_InterfacePayload_Header_getMessagesTotal", "TECMP_InterfacePayload_Header_getSerialNumber", "TECMP_InterfacePayload_Header_getVendorDataLength", "TECMP_InterfacePayload_Header_getVendorDataLinkQuality", "TECMP_InterfacePayload_Header_getVendorDataLinkStatus", "TECMP_InterfacePayload_Header_getVendorDataLinkupTime", "TECMP_InterfacePayload_Header_getVendorId", "TECMP_InterfacePayload_Header_setCmType", "TECMP_InterfacePayload_Header_setCmVersion", "TECMP_InterfacePayload_Header_setDeviceId", "TECMP_InterfacePayload_Header_setErrorsTotal", "TECMP_InterfacePayload_Header_setInterfaceId", "TECMP_InterfacePayload_Header_setMessagesTotal", "TECMP_InterfacePayload_Header_setSerialNumber", "TECMP_InterfacePayload_Header_setVendorDataLength", "TECMP_InterfacePayload_Header_setVendorDataLinkQuality", "TECMP_InterfacePayload_Header_setVendorDataLinkStatus", "TECMP_InterfacePayload_Header_setVendorDataLinkupTime", "TECMP_InterfacePayload_Header_setVendorId", "TECMP_InterfacePayload_getHeader_v", "TECMP_InterfacePayload_getCmType", "TECMP_InterfacePayload_getCmVersion", "TECMP_InterfacePayload_getDeviceId", "TECMP_InterfacePayload_getErrorsTotal", "TECMP_InterfacePayload_getHeader_v2", "TECMP_InterfacePayload_getInterfaceId", "TECMP_InterfacePayload_getMessagesTotal", "TECMP_InterfacePayload_getSerialNumber", "TECMP_InterfacePayload_getVendorDataLength", "TECMP_InterfacePayload_getVendorDataLinkQuality", "TECMP_InterfacePayload_getVendorDataLinkStatus", "TECMP_InterfacePayload_getVendorDataLinkupTime", "TECMP_InterfacePayload_getVendorId", "TECMP_InterfacePayload_setCmType", "TECMP_InterfacePayload_setCmVersion", "TECMP_InterfacePayload_setDeviceId", "TECMP_InterfacePayload_setErrorsTotal", "TECMP_InterfacePayload_setInterfaceId", "TECMP_InterfacePayload_setMessagesTotal", "TECMP_InterfacePayload_setSerialNumber", "TECMP_InterfacePayload_setVendorDataLength", "TECMP_InterfacePayload_setVendorDataLinkQuality", "TECMP_InterfacePayload_setVendorDataLinkStatus", "TECMP_InterfacePayload_setVendorDataLinkupTime", "TECMP_InterfacePayload_setVendorId", "TECMP_LinPayload_Header_getDataLength", "TECMP_LinPayload_Header_getPid", "TECMP_LinPayload_Header_setDataLength", "TECMP_LinPayload_Header_setPid", "TECMP_LinPayload_getHeader_v", "TECMP_LinPayload_getCrc", "TECMP_LinPayload_getData", "TECMP_LinPayload_getDataLength", "TECMP_LinPayload_getHeader_v2", "TECMP_LinPayload_getPid", "TECMP_LinPayload_setDataLength", "TECMP_LinPayload_setPid", "TECMP_Payload_getLength", "TECMP_PayloadType_getMessageType", "TECMP_Payload_getMessageType", "TECMP_Payload_getRawPayload", "TECMP_PayloadType_getRawPayloadType", "TECMP_Payload_getRawPayloadType", "TECMP_PayloadType_isValid", "TECMP_Payload_isValid", "TECMP_PayloadType_setMessageType", "TECMP_Payload_setMessageType", "TECMP_PayloadType_setRawPayloadType", "TECMP_Payload_setRawPayloadType", "TECMP_PayloadType_getType", "TECMP_PayloadType_setType"]
 
 end AsamCmp.SrcGen
